@@ -34,8 +34,17 @@ CFLAGS = ["-std=gnu11", f"-I{REPO}/include", f"-I{REPO}/src", "-DCARQUET_ARCH_X8
 SPILL = 72          # a bound local whose Lean expression is longer than this becomes a helper definition
 
 
-def F(lean, file, cname=None, fuel=None):
-    return dict(lean=lean, file=file, cname=cname or lean, fuel=fuel or [])
+def F(lean, file, cname=None, fuel=None, **kw):
+    """`fuel`: one entry per loop of the function in source order: a number, or (stage 2) a Lean `Nat` expression in
+    which `{x}` stands for the value of the C variable `x` on entry to the loop (`{@a}` = the content of array `a`)."""
+    d = dict(lean=lean, file=file, cname=cname or lean, fuel=fuel or [], stage=1)
+    d.update(kw)
+    return d
+
+
+def F2(lean, file, cname=None, fuel=None, **kw):
+    """a stage-2 function (arrays, pointers, out-parameters, tables): listed in the second table of Gen/CFun.lean"""
+    return F(lean, file, cname, fuel, stage=2, **kw)
 
 
 # Order matters only in that a callee must come before its callers.  `fuel`: one number per loop of the function
@@ -92,6 +101,66 @@ FUNCS += [
     F("syn_shr", SYNTH), F("syn_ushl", SYNTH), F("syn_udivmod", SYNTH), F("syn_guard", SYNTH),
     F("syn_for", SYNTH, fuel=[6]), F("syn_switch", SYNTH), F("syn_bools", SYNTH),
     F("syn_rec_inner", SYNTH), F("syn_rec", SYNTH), F("syn_collatz", SYNTH, fuel=[202]), F("syn_mix", SYNTH),
+]
+
+
+# ---- stage 2: read-only arrays, pointer walks, out-parameters, constant tables (NOTES_cfun2.md)
+FUNCS += [
+    F2("read64_le", "src/util/xxhash.c"),
+    F2("read32_le", "src/util/xxhash.c"),
+    F2("carquet_xxhash64", "src/util/xxhash.c",
+       fuel=["{length}.toNat / 32 + 1", "{length}.toNat / 8 + 1", "{length}.toNat + 1"]),
+    F2("bloom_filter_block_insert", "src/metadata/bloom_filter.c", fuel=[9]),
+    F2("bloom_filter_block_check", "src/metadata/bloom_filter.c", fuel=[9]),
+    F2("crc32_init_tables", "src/util/crc32.c", fuel=[257, 9, 8, 257]),
+    F2("crc32_slicing_by_8", "src/util/crc32.c", fuel=["{length}.toNat / 8 + 1", "{length}.toNat + 1"]),
+    F2("carquet_crc32", "src/util/crc32.c"),
+    F2("carquet_crc32_update", "src/util/crc32.c"),
+    F2("carquet_read_u16_le", "src/core/endian.h"),
+    F2("carquet_read_u32_le", "src/core/endian.h"),
+    F2("carquet_read_u64_le", "src/core/endian.h"),
+    F2("carquet_read_i32_le", "src/core/endian.h"),
+    F2("carquet_read_i64_le", "src/core/endian.h"),
+    F2("carquet_decode_varint32", "src/core/endian.h", fuel=[6]),
+    F2("carquet_decode_varint64", "src/core/endian.h", fuel=[11]),
+    F2("carquet_encode_varint32", "src/core/endian.h", fuel=[5]),
+    F2("carquet_encode_varint64", "src/core/endian.h", fuel=[10]),
+    F2("read_uleb128", "src/encoding/delta.c", fuel=[11]),
+    F2("rle_read_varint", "src/encoding/rle.c", "read_varint", fuel=[6]),
+    F2("snappy_read_varint", "src/compression/snappy.c", fuel=[6], ends={"end": "p"}),
+    F2("stats_compare_boolean", "src/metadata/statistics.c", "compare_boolean"),
+    F2("stats_compare_int32", "src/metadata/statistics.c", "compare_int32"),
+    F2("stats_compare_int64", "src/metadata/statistics.c", "compare_int64"),
+    F2("stats_compare_int96", "src/metadata/statistics.c", "compare_int96", fuel=[4]),
+    F2("rstats_compare_boolean", "src/reader/statistics.c", "compare_boolean"),
+    F2("rstats_compare_int32", "src/reader/statistics.c", "compare_int32"),
+    F2("rstats_compare_int64", "src/reader/statistics.c", "compare_int64"),
+    F2("rstats_compare_int96", "src/reader/statistics.c", "compare_int96", fuel=[4]),
+    F2("read_le16", "src/core/bitpack.c"),
+    F2("read_le24", "src/core/bitpack.c"),
+    F2("read_le32", "src/core/bitpack.c"),
+    F2("read_le40", "src/core/bitpack.c"),
+    F2("read_le48", "src/core/bitpack.c"),
+    F2("read_le56", "src/core/bitpack.c"),
+    F2("carquet_bitunpack8_1bit", "src/core/bitpack.c"),
+    F2("carquet_bitunpack8_2bit", "src/core/bitpack.c"),
+    F2("carquet_bitunpack8_3bit", "src/core/bitpack.c"),
+    F2("carquet_bitunpack8_4bit", "src/core/bitpack.c"),
+    F2("carquet_bitunpack8_5bit", "src/core/bitpack.c"),
+    F2("carquet_bitunpack8_6bit", "src/core/bitpack.c"),
+    F2("carquet_bitunpack8_7bit", "src/core/bitpack.c"),
+    F2("carquet_bitunpack8_8bit", "src/core/bitpack.c"),
+    F2("carquet_bitunpack8_32", "src/core/bitpack.c", fuel=[9, 33]),
+    # synthetic (harness/cfun_synth.h): constructs of stage 2 that the carquet functions above do not use
+    F2("syn_walk_back", SYNTH, fuel=["{end} + 1"], ends={"end": "p"}),
+    F2("syn_find16", SYNTH, fuel=["{n}.toNat + 1"]),
+    F2("syn_tables", SYNTH),
+    F2("syn_locals", SYNTH, fuel=[5, 5]),
+    F2("syn_put16", SYNTH),
+    F2("syn_put_many", SYNTH),
+    F2("syn_be_le", SYNTH),
+    F2("syn_runs", SYNTH, fuel=["{size}.toNat + 1", 10]),
+    F2("syn_do_once", SYNTH, fuel=[21]),
 ]
 
 
@@ -182,12 +251,68 @@ class T:
         return "Bool" if self.is_bool else f"BitVec {self.w}"
 
     def __eq__(self, o):
-        return (self.w, self.signed, self.is_bool) == (o.w, o.signed, o.is_bool)
+        return isinstance(o, T) and (self.w, self.signed, self.is_bool) == (o.w, o.signed, o.is_bool)
 
     def __repr__(self):
         return "bool" if self.is_bool else ("i" if self.signed else "u") + str(self.w)
 
 
+class PTR:
+    """type of a pointer VALUE: a pointer into the array state variable `base`; the Lean value is a `Nat`, the offset
+    counted in elements of the base array.  `elem` is the C type pointed to (the view), `scale` = how many base
+    elements one `elem` spans (1 unless a byte array is viewed through a wider integer type)."""
+    is_bool, signed, w = False, False, 64
+
+    def __init__(self, base, elem, scale=1):
+        self.base, self.elem, self.scale = base, elem, scale
+
+    def lean(self):
+        return "Nat"
+
+    def __eq__(self, o):
+        return isinstance(o, PTR) and (self.base, self.scale) == (o.base, o.scale) and self.elem == o.elem
+
+    def __repr__(self):
+        return f"ptr({self.base},{self.elem!r})"
+
+
+class ARR:
+    """type of an array STATE variable (the content of the memory a pointer parameter points to, of a global or local
+    array): `List UInt8` for 8-bit elements, `List (BitVec w)` otherwise.  `dims`: the declared dimensions when they
+    are static (global / local arrays; the list is flat), else None.  `kind`: param | global | const | local."""
+    is_bool, signed = False, False
+
+    def __init__(self, elem, dims=None, writable=False, kind="param"):
+        self.elem, self.dims, self.writable, self.kind = elem, dims, writable, kind
+
+    def lean(self):
+        return "List UInt8" if self.elem.w == 8 else f"List (BitVec {self.elem.w})"
+
+    def total(self):
+        n = 1
+        for d_ in self.dims:
+            n *= d_
+        return n
+
+    def __eq__(self, o):
+        return isinstance(o, ARR) and self.elem == o.elem and self.dims == o.dims
+
+    def __repr__(self):
+        return f"arr({self.elem!r},{self.dims})"
+
+
+class FlagsT:
+    """type of the shadow of an uninitialised local array: which elements have been written"""
+    is_bool, signed = False, False
+
+    def lean(self):
+        return "List Bool"
+
+    def __eq__(self, o):
+        return isinstance(o, FlagsT)
+
+
+FLAGS = FlagsT()
 BOOL = T(1, False, True)
 BASE = {
     "_Bool": BOOL, "bool": BOOL,
@@ -221,6 +346,16 @@ def ident(s):
     return s + "_" if s in KEYWORDS else s
 
 
+def sizeof_key(n):
+    """the constant-query spelling of a `sizeof` node (type or expression operand)"""
+    if "argType" in n:
+        return "sizeof(" + n["argType"]["qualType"] + ")"
+    inner = n["inner"][0]
+    while inner.get("kind") == "ParenExpr":
+        inner = inner["inner"][0]
+    return "sizeof(" + strip_quals(inner["type"].get("desugaredQualType", inner["type"]["qualType"])) + ")"
+
+
 # ------------------------------------------------------------------------------------------------ expressions
 
 class E:
@@ -230,8 +365,16 @@ class E:
         self.v, self.t, self.d, self.b, self.lit = v, t, list(d or []), b, lit
 
 
+def uniq(xs):
+    out = []
+    for x in xs:
+        if x not in out:
+            out.append(x)
+    return out
+
+
 def dand(ds):
-    ds = [d for d in ds if d != "true"]
+    ds = uniq([d for d in ds if d != "true"])
     if not ds:
         return "true"
     if "false" in ds:
@@ -266,6 +409,18 @@ class Fn:
         self.paths = []                # [(path tuple, T)] in order of first appearance
         self.scope = []                # dynamic: parameters [(lean name, T)] of the definition being generated
         self.in_loop_body = False
+        # stage 2
+        self.pending = []              # ++/-- met inside the full expression being translated
+        self.arrays = {}               # array name -> ARR (pointer parameters, global / local arrays, constant tables)
+        self.cells = {}                # pointer parameter used only as `*p` -> pointee T
+        self.gcells = {}               # scalar global -> T
+        self.gconsts = {}              # constant scalar global -> (value, T)
+        self.ptr_param_names = set()
+        self.outs = []                 # env keys of the state that is part of the result, in order
+        self.break_k = []              # stack: continuation of `break` of the enclosing loops
+        self.njoin = 0
+        self.nbind = 0
+        self.tables = []               # emitted constant tables (text)
 
     # ---- types
     def ctype(self, tj):
@@ -345,7 +500,10 @@ class Fn:
                 self.use_path(self.path_of(n), t)
                 return
         if k == "CallExpr":
-            callee = self.callee_of(n)
+            try:
+                callee = self.callee_of(n)
+            except Untranslatable:
+                callee = None
             if isinstance(callee, dict):
                 args = n["inner"][1:]
                 for (pname, pt, origin) in callee["lean_params"]:
@@ -446,12 +604,22 @@ class Fn:
             if ck == "IntegralToBoolean":
                 return self.cast(self.expr(inner, env), BOOL)
             raise Untranslatable(f"cast kind {ck} is outside the supported subset")
+        if k == "ArraySubscriptExpr" or (k == "UnaryOperator" and n.get("opcode") == "*"):
+            return self.read_loc(self.lvalue(n, env), env)
+        if k == "UnaryOperator" and n.get("opcode") in ("++", "--"):
+            return self.incdec(n, env)
         if k == "DeclRefExpr":
             rd = n["referencedDecl"]
             if rd.get("kind") == "EnumConstantDecl":
                 return lit_e(self.unit.consts[rd["name"]], self.ctype(n["type"]))
             if rd.get("kind") in ("ParmVarDecl", "VarDecl"):
                 nm = rd["name"]
+                if nm in self.gconsts and nm not in env:
+                    return lit_e(*self.gconsts[nm])
+                if nm in self.gcells and nm not in env:
+                    return self.read_loc(dict(kind="cell", key="*" + nm, t=self.gcells[nm]), env)
+                if nm in env and env[nm] is not None and not isinstance(env[nm][1], T):
+                    raise Untranslatable(f"pointer `{nm}` used where an integer is expected (NULL test?)")
                 if nm not in env:
                     raise Untranslatable(f"`{nm}` is not a scalar local or parameter (global or pointer?)")
                 if env[nm] is None:
@@ -463,9 +631,9 @@ class Fn:
             t = self.ctype(n["type"])
             return E(self.use_path(self.path_of(n), t), t)
         if k == "UnaryExprOrTypeTraitExpr":
-            if n.get("name") != "sizeof" or "argType" not in n:
-                raise Untranslatable("only sizeof(type) is supported")
-            return lit_e(self.unit.consts["sizeof(" + n["argType"]["qualType"] + ")"], self.ctype(n["type"]))
+            if n.get("name") != "sizeof":
+                raise Untranslatable("only sizeof is supported")
+            return lit_e(self.unit.consts[sizeof_key(n)], self.ctype(n["type"]))
         if k == "UnaryOperator":
             op = n["opcode"]
             t = self.ctype(n["type"])
@@ -487,7 +655,10 @@ class Fn:
         if k == "BinaryOperator":
             return self.binop(n, env)
         if k == "ConditionalOperator":
-            c, x, y = (self.expr(c, env) for c in n["inner"])
+            c = self.expr(n["inner"][0], env)
+            np_ = len(self.pending)
+            x, y = self.expr(n["inner"][1], env), self.expr(n["inner"][2], env)
+            self.guard_no_pending(np_, "an arm of `?:`")
             t = self.ctype(n["type"])
             cb = self.cond(c)
             if not (x.t == t and y.t == t):
@@ -505,9 +676,25 @@ class Fn:
     def binop(self, n, env):
         op = n["opcode"]
         t = self.ctype(n["type"])
+        l0, r0 = n["inner"]
+        if l0 is not None and self.ptr_view(l0.get("type")) is not None and self.ptr_view(r0.get("type")) is not None:
+            pa, pb = self.pexpr(l0, env), self.pexpr(r0, env)
+            if pa.t.base != pb.t.base:
+                raise Untranslatable("pointers into two different arrays are compared / subtracted")
+            d = pa.d + pb.d
+            if op in ("<", ">", "<=", ">=", "==", "!="):
+                x, y = (pa.v, pb.v) if op in ("<", "<=", "==", "!=") else (pb.v, pa.v)
+                r = f"({x} {op} {y})" if op in ("==", "!=") else \
+                    f"(decide ({x} {'<' if op in ('<', '>') else '≤'} {y}))"
+                return self.from_bool(r, t, d)
+            if op == "-" and pa.t.scale == 1 and pb.t.scale == 1 and t.w == 64:
+                return E(f"(BitVec.ofInt 64 (Int.ofNat {pa.v} - Int.ofNat {pb.v}))", t, d)
+            raise Untranslatable(f"`{op}` on two pointers")
         a = self.expr(n["inner"][0], env)
         if op in ("&&", "||"):
+            np_ = len(self.pending)
             b = self.expr(n["inner"][1], env)
+            self.guard_no_pending(np_, f"the right operand of `{op}`")
             ca, cb = self.cond(a), self.cond(b)
             d = list(a.d)
             if b.d:
@@ -565,11 +752,77 @@ class Fn:
             return E(f"({a.v} { {'&': '&&&', '|': '|||', '^': '^^^'}[op]} {b.v})", t, d)
         raise Untranslatable(f"binary operator `{op}` in an expression")
 
+    def call_parts(self, n, env):
+        """a call to a translated function: dict(app, d, callee, t, dests)"""
+        callee = self.callee_of(n)
+        args = n["inner"][1:]
+        if isinstance(callee, str):
+            raise Untranslatable("builtin in statement position")
+        if len(args) != len(callee["cparams"]):
+            raise Untranslatable(f"call to {callee['cname']}: wrong number of arguments")
+        d, actual, dests = [], [], {}
+        scalar = {}
+        for i, a in enumerate(args):
+            cp = callee["cparams"][i]
+            kind = cp.get("kind", "struct" if cp["struct"] is not None else "scalar")
+            if kind == "end":
+                raise Untranslatable(f"call to {callee['cname']}, which takes a (p, end) pointer pair")
+            if kind == "scalar":
+                e = self.expr(a, env)
+                if not e.t == cp["t"]:
+                    raise Untranslatable(f"call to {callee['cname']}: argument {i} has type {e.t}")
+                scalar[i] = e
+                d += e.d
+            elif kind == "array":
+                pe = self.pexpr(a, env)
+                A = self.arrays[pe.t.base]
+                if pe.t.scale != 1 or A.elem.w != cp["elem"].w:
+                    raise Untranslatable(f"call to {callee['cname']}: argument {i} views `{pe.t.base}` through another type")
+                if cp["writable"] and not A.writable:
+                    raise Untranslatable(f"call to {callee['cname']}: read-only array `{pe.t.base}` passed for writing")
+                if "?" + pe.t.base in env:
+                    raise Untranslatable(f"call to {callee['cname']}: an uninitialised local array is passed")
+                d += pe.d
+                a0 = self.arr_term(pe.t.base, env)
+                scalar[i] = E(a0 if pe.v == "0" else f"(List.drop {pe.v} {a0})", A)
+                dests[("array", i)] = ("arr", pe.t.base, pe.v)
+            elif kind == "cell":
+                x = a
+                while x.get("kind") == "ParenExpr" or (x.get("kind") == "ImplicitCastExpr" and
+                                                       x.get("castKind") in ("LValueToRValue", "NoOp")):
+                    x = x["inner"][0]
+                if x.get("kind") == "DeclRefExpr" and x["referencedDecl"].get("name") in self.cells:
+                    key = "*" + x["referencedDecl"]["name"]
+                elif x.get("kind") == "UnaryOperator" and x.get("opcode") == "&" and \
+                        x["inner"][0].get("kind") == "DeclRefExpr" and x["inner"][0]["referencedDecl"].get("name") in env:
+                    key = x["inner"][0]["referencedDecl"]["name"]
+                else:
+                    raise Untranslatable(f"call to {callee['cname']}: argument {i} must be `&local` or an out-parameter")
+                if env.get(key) is None or not env[key][1] == cp["elem"]:
+                    raise Untranslatable(f"call to {callee['cname']}: `{key}` is unassigned or of another type")
+                scalar[i] = E(env[key][0], env[key][1])
+                dests[("cell", i)] = ("var", key)
+        for (pname, pt, origin) in callee["lean_params"]:
+            if origin[0] in ("scalar", "array", "cell"):
+                actual.append(scalar[origin[1]].v)
+            elif origin[0] == "path":
+                actual.append(self.use_path(self.ptr_arg_path(args[origin[1]]) + list(origin[2]), pt))
+            else:                                             # a global the callee reads / writes
+                key = ("@" if origin[0] == "garray" else "*") + origin[1]
+                if env.get(key) is None:
+                    raise Untranslatable(f"call to {callee['cname']}: global `{origin[1]}` is not part of this function's state")
+                actual.append(env[key][0])
+                dests[(origin[0], origin[1])] = ("var", key)
+        app = " ".join(actual)
+        d.append(f"({callee['lean']}_defined {app})" if actual else f"{callee['lean']}_defined")
+        outs = [dests[o["origin"]] for o in callee.get("outs", [])]
+        return dict(app=f"({callee['lean']} {app})" if actual else callee["lean"], d=d, callee=callee, dests=outs)
+
     def call(self, n, env):
         callee = self.callee_of(n)
         args = n["inner"][1:]
-        t = self.ctype(n["type"])
         if isinstance(callee, str):
+            t = self.ctype(n["type"])
             vf, df = self.BUILTINS[callee]
             if len(args) != 1:
                 raise Untranslatable(f"{callee} with {len(args)} arguments")
@@ -577,27 +830,456 @@ class Fn:
             if not t == BASE["int"]:
                 raise Untranslatable(f"{callee} not returning int")
             return E(f"({vf} {a.v})", t, a.d + ([f"({df} {a.v})"] if df else []))
-        if not t == callee["ret"]:
+        if callee.get("outs"):
+            raise Untranslatable(f"call to {callee['cname']}, which writes through its arguments, inside an expression "
+                                 f"(supported: `f(..);`, `x = f(..);`, `T x = f(..);`, `return f(..);`)")
+        t = self.ctype(n["type"])
+        if callee["ret"] is None or not t == callee["ret"]:
             raise Untranslatable(f"call to {callee['cname']}: result type mismatch")
-        if len(args) != len(callee["cparams"]):
-            raise Untranslatable(f"call to {callee['cname']}: wrong number of arguments")
-        d, actual = [], []
-        scalar = {}
-        for i, a in enumerate(args):
-            if callee["cparams"][i]["struct"] is None:
-                e = self.expr(a, env)
-                if not e.t == callee["cparams"][i]["t"]:
-                    raise Untranslatable(f"call to {callee['cname']}: argument {i} has type {e.t}")
-                scalar[i] = e
-                d += e.d
-        for (pname, pt, origin) in callee["lean_params"]:
-            if origin[0] == "scalar":
-                actual.append(scalar[origin[1]].v)
+        parts = self.call_parts(n, env)
+        return E(parts["app"], t, parts["d"])
+
+    def out_call(self, n):
+        """`n` (through parentheses) is a call to a translated function that has out-results: the CallExpr, else None"""
+        while n is not None and n.get("kind") == "ParenExpr":
+            n = n["inner"][0]
+        if n is None or n.get("kind") != "CallExpr":
+            return None
+        try:
+            c = self.callee_of(n)
+        except Untranslatable:
+            return None
+        return n if isinstance(c, dict) and c.get("outs") else None
+
+    def contains_outcall(self, n):
+        if n.get("kind") == "CallExpr" and self.out_call(n) is not None:
+            return True
+        return any(self.contains_outcall(c) for c in n.get("inner", []) if isinstance(c, dict))
+
+    def bind_call(self, n, env, k, target=None, target_t=None):
+        """statement-level call of a function with out-results: `match f args with | (r, o1, ..) => continuation`;
+        `target`: env key that receives the returned value (None: dropped); k : env -> (V, D)"""
+        parts = self.call_parts(n, env)
+        callee = parts["callee"]
+        self.nbind += 1
+        names, env2 = [], dict(env)
+        saved_scope = self.scope
+        add = []
+        if callee["ret"] is not None:
+            rn = f"r__{self.nbind}"
+            names.append(rn)
+            add.append((rn, callee["ret"]))
+            if target is not None:
+                if not callee["ret"] == target_t:
+                    raise Untranslatable(f"result of {callee['cname']} stored into a variable of another type")
+                env2[target] = (rn, callee["ret"])
+        elif target is not None:
+            raise Untranslatable(f"{callee['cname']} returns nothing")
+        for o, dest in zip(callee["outs"], parts["dests"]):
+            cn = f"{ident(o['name'])}__{self.nbind}"
+            names.append(cn)
+            add.append((cn, o["t"]))
+            if dest[0] == "var":
+                if dest[1] in self.outs or dest[1][0] not in "@*":
+                    env2[dest[1]] = (cn, o["t"])
+                else:
+                    raise Untranslatable(f"call to {callee['cname']} writes `{dest[1]}`, which was not found to be written")
             else:
-                actual.append(self.use_path(self.ptr_arg_path(args[origin[1]]) + list(origin[2]), pt))
-        app = " ".join(actual)
-        d.append(f"({callee['lean']}_defined {app})")
-        return E(f"({callee['lean']} {app})", t, d)
+                _, base, off = dest
+                a0 = self.arr_term(base, env)
+                env2["@" + base] = (cn if off == "0" else f"({self.CS}splice {a0} {off} {cn})", self.arrays[base])
+        self.scope = saved_scope + add
+        try:
+            V, D = k(env2)
+        finally:
+            self.scope = saved_scope
+        pat = names[0] if len(names) == 1 else "(" + ", ".join(names) + ")"
+        Vm = f"(match {parts['app']} with\n    | {pat} => {V})"
+        Dm = dand(parts["d"] + ([] if D == "true" else [f"(match {parts['app']} with\n    | {pat} => {D})"]))
+        return Vm, Dm
+
+    # ================================================================================================ stage 2
+    # ---- pointers, arrays, cells
+    CS = "Carquet.Impl.CSem."
+
+    def ptr_view(self, tj):
+        """if `tj` is a pointer to an integer type or to void: the pointee type (`T`, or the string "void"); else None"""
+        if not tj:
+            return None
+        k = type_key(tj)
+        if not k.endswith("*") or k.count("*") != 1 or "(" in k:
+            return None
+        base = k[:-1].strip()
+        if base == "void":
+            return "void"
+        try:
+            t = self.ctype(dict(qualType=base))
+        except Untranslatable:
+            return None
+        return None if t.is_bool else t
+
+    def arr_type_of(self, tj):
+        """(element T, [dims]) if `tj` is an array type of integers with constant dimensions, else None"""
+        k = type_key(tj)
+        m = re.fullmatch(r"(.*?)((?:\s*\[\d+\])+)", k)
+        if not m:
+            return None
+        try:
+            t = self.ctype(dict(qualType=m.group(1).strip()))
+        except Untranslatable:
+            return None
+        if t.is_bool:
+            return None
+        return t, [int(x) for x in re.findall(r"\[(\d+)\]", m.group(2))]
+
+    def lname(self, key):
+        """Lean name of the formal parameter that carries state variable `key`"""
+        if key[0] in "@*?":
+            return ident(key[1:]) + ("_init" if key[0] == "?" else "")
+        if key in self.ptr_param_names:
+            return ident(key + "_off")
+        return ident(key)
+
+    @staticmethod
+    def nat_add(a, b):
+        """a + b on Lean `Nat` terms, folding literals (`(p + 8) + 8` becomes `(p + 16)`)"""
+        if a == "0":
+            return b
+        if b == "0":
+            return a
+        if a.isdigit() and b.isdigit():
+            return str(int(a) + int(b))
+        if a.isdigit():
+            a, b = b, a
+        m = re.fullmatch(r"\((.+) \+ (\d+)\)", a)
+        if m and b.isdigit() and m.group(1).count("(") == m.group(1).count(")"):
+            return f"({m.group(1)} + {int(m.group(2)) + int(b)})"
+        return f"({a} + {b})"
+
+    def padd(self, off, idx, scale, sign=1):
+        """pointer/offset arithmetic: `off ± idx * scale` as a Nat term, and the conjuncts saying that the result is
+        not before the start of the array (being beyond its end is only an issue when it is dereferenced)"""
+        if idx.lit is not None:
+            v = sign * idx.lit * scale
+            if v >= 0:
+                return self.nat_add(off, str(v)), []
+            if off.isdigit():
+                return str(max(0, int(off) + v)), ([] if int(off) + v >= 0 else ["false"])
+            return f"({off} - {-v})", [f"(decide ({-v} ≤ {off}))"]
+        sc = "" if scale == 1 else f" * {scale}"
+        if not idx.t.signed:
+            term = f"{idx.v}.toNat" if scale == 1 else f"({idx.v}.toNat{sc})"
+            if sign > 0:
+                return self.nat_add(off, term), []
+            return f"({off} - {term})", [f"(decide ({term} ≤ {off}))"]
+        it = f"{idx.v}.toInt" if sign > 0 else f"(-{idx.v}.toInt)"
+        if scale != 1:
+            it = f"({it}{sc})"
+        if off == "0" and sign > 0:
+            return (f"{idx.v}.toInt.toNat" if scale == 1 else f"({idx.v}.toInt.toNat{sc})"), [f"(!{idx.v}.msb)"]
+        return f"({self.CS}padd {off} {it})", [f"({self.CS}paddOk {off} {it})"]
+
+    def review(self, e, view):
+        """pointer `e` converted to a pointer to `view`"""
+        if view == "void" or view == e.t.elem:
+            return e
+        be = self.arrays[e.t.base].elem
+        if view.w == be.w:
+            return E(e.v, PTR(e.t.base, view, 1), e.d)
+        if be.w == 8 and view.w in (16, 32, 64):
+            return E(e.v, PTR(e.t.base, view, view.w // 8), e.d)
+        raise Untranslatable(f"an array of {be!r} elements accessed through a pointer to {view!r}")
+
+    def pexpr(self, n, env):
+        """a pointer-valued expression: E whose value is the offset (Nat term) and whose type is a PTR"""
+        k = n.get("kind")
+        if k == "ParenExpr":
+            return self.pexpr(n["inner"][0], env)
+        if k in ("ImplicitCastExpr", "CStyleCastExpr"):
+            ck, inner = n.get("castKind"), n["inner"][0]
+            if ck == "ArrayToPointerDecay":
+                base, off, dims, elem, d = self.arrloc(inner, env)
+                if len(dims) != 1:
+                    raise Untranslatable("a row of a multi-dimensional array used as a pointer")
+                return E(off, PTR(base, elem, 1), d)
+            if ck in ("LValueToRValue", "NoOp", "BitCast"):
+                view = self.ptr_view(n["type"])
+                if view is None:
+                    raise Untranslatable(f"pointer cast to `{n['type'].get('qualType')}`")
+                return self.review(self.pexpr(inner, env), view)
+            raise Untranslatable(f"pointer cast kind {ck}")
+        if k == "DeclRefExpr":
+            nm = n["referencedDecl"].get("name")
+            if nm in self.cells:
+                raise Untranslatable(f"out-parameter `{nm}` used otherwise than as `*{nm}`")
+            if nm not in env or env[nm] is None or not isinstance(env[nm][1], PTR):
+                raise Untranslatable(f"`{nm}` is not a (assigned) pointer variable")
+            return E(env[nm][0], env[nm][1])
+        if k == "BinaryOperator" and n["opcode"] in ("+", "-"):
+            l, r = n["inner"]
+            if self.ptr_view(l.get("type")) is not None:
+                pe, ie, sign = self.pexpr(l, env), self.expr(r, env), (1 if n["opcode"] == "+" else -1)
+            elif n["opcode"] == "+":
+                pe, ie, sign = self.pexpr(r, env), self.expr(l, env), 1
+            else:
+                raise Untranslatable("integer - pointer")
+            if ie.t.is_bool:
+                raise Untranslatable("pointer + _Bool")
+            off, d = self.padd(pe.v, ie, pe.t.scale, sign)
+            return E(off, pe.t, pe.d + ie.d + d)
+        if k == "UnaryOperator" and n["opcode"] in ("++", "--"):
+            return self.incdec(n, env)
+        raise Untranslatable(f"pointer expression of kind {k}")
+
+    def incdec(self, n, env):
+        """`x++ x-- ++x --x` inside an expression (x a scalar or pointer local): the update is applied to the
+        environment at the end of the full expression; `x` must not occur elsewhere in it (checked by the caller)"""
+        tgt = n["inner"][0]
+        while tgt.get("kind") == "ParenExpr":
+            tgt = tgt["inner"][0]
+        if tgt.get("kind") != "DeclRefExpr" or tgt["referencedDecl"].get("kind") not in ("ParmVarDecl", "VarDecl"):
+            raise Untranslatable("++/-- inside an expression on something that is not a local variable")
+        nm = tgt["referencedDecl"]["name"]
+        if nm not in env or env[nm] is None:
+            raise Untranslatable(f"++/-- on `{nm}`, which is not an assigned local")
+        if any(q[0] == nm for q in self.pending):
+            raise Untranslatable(f"`{nm}` is modified twice in one expression")
+        v, t = env[nm]
+        up = n["opcode"] == "++"
+        d = []
+        if isinstance(t, PTR):
+            one = E(str(1), BASE["int"], lit=1)
+            new, d = self.padd(v, one, t.scale, 1 if up else -1)
+        else:
+            if t.is_bool:
+                raise Untranslatable("++/-- on _Bool")
+            if t.signed and t.w >= 32:
+                d.append(f"({self.CS}{'sAddOk' if up else 'sSubOk'} {v} 1#{t.w})")
+            new = f"({v} {'+' if up else '-'} 1#{t.w})"
+        self.pending.append((nm, new, t))
+        return E(v if n.get("isPostfix") else new, t, d)
+
+    def count_refs(self, n, name):
+        c = 0
+        if n.get("kind") == "DeclRefExpr" and n.get("referencedDecl", {}).get("name") == name:
+            c += 1
+        for ch in n.get("inner", []):
+            if isinstance(ch, dict):
+                c += self.count_refs(ch, name)
+        return c
+
+    def begin_full(self):
+        self.pending = []
+
+    def end_full(self, node, env):
+        """apply the pending ++/-- of the full expression `node` to the environment"""
+        if not self.pending:
+            return env
+        env = dict(env)
+        for nm, new, t in self.pending:
+            if self.count_refs(node, nm) != 1:
+                raise Untranslatable(f"`{nm}` is modified by ++/-- and used again in the same expression (unsequenced)")
+            env[nm] = (self.spill(new, t) if not isinstance(t, PTR) else new, t)
+        self.pending = []
+        return env
+
+    def guard_no_pending(self, before, what):
+        if len(self.pending) != before:
+            raise Untranslatable(f"++/-- inside {what}")
+
+    def arrloc(self, a, env):
+        """an lvalue of array type: (base key, offset term, remaining dims, element type, definedness)"""
+        k = a.get("kind")
+        if k == "ParenExpr":
+            return self.arrloc(a["inner"][0], env)
+        if k == "DeclRefExpr":
+            nm = a["referencedDecl"].get("name")
+            if nm not in self.arrays or self.arrays[nm].dims is None:
+                raise Untranslatable(f"`{nm}` is not a known array")
+            A = self.arrays[nm]
+            return nm, "0", list(A.dims), A.elem, []
+        if k == "ArraySubscriptExpr":
+            b0, ix = a["inner"]
+            if b0.get("kind") == "ImplicitCastExpr" and b0.get("castKind") == "ArrayToPointerDecay":
+                base, off, dims, elem, d = self.arrloc(b0["inner"][0], env)
+                ie = self.expr(ix, env)
+                stride = 1
+                for x in dims[1:]:
+                    stride *= x
+                off2, d2 = self.padd(off, ie, stride)
+                return base, off2, dims[1:], elem, d + ie.d + d2 + self.static_bound(ie, dims[0])
+        raise Untranslatable(f"array lvalue of kind {k}")
+
+    def static_bound(self, ie, n):
+        """index `ie` (an integer E) is below the declared dimension `n`"""
+        if ie.lit is not None:
+            return [] if 0 <= ie.lit < n else ["false"]
+        if ie.t.signed:
+            return [f"(decide ({ie.v}.toInt < {n}))"]
+        return [f"(decide ({ie.v}.toNat < {n}))"]
+
+    def lvalue(self, n, env):
+        """a memory location: dict(kind='mem', base, off, t, d, static) or dict(kind='cell', key, t)"""
+        k = n.get("kind")
+        if k == "ParenExpr":
+            return self.lvalue(n["inner"][0], env)
+        if k == "UnaryOperator" and n.get("opcode") == "*":
+            inner = n["inner"][0]
+            x = inner
+            while x.get("kind") in ("ParenExpr",) or (x.get("kind") == "ImplicitCastExpr" and x.get("castKind") == "LValueToRValue"):
+                x = x["inner"][0]
+            if x.get("kind") == "DeclRefExpr" and x["referencedDecl"].get("name") in self.cells:
+                nm = x["referencedDecl"]["name"]
+                return dict(kind="cell", key="*" + nm, t=self.cells[nm])
+            pe = self.pexpr(inner, env)
+            return dict(kind="mem", base=pe.t.base, off=pe.v, t=pe.t.elem, scale=pe.t.scale, d=pe.d, static=False, cast=True)
+        if k == "ArraySubscriptExpr":
+            b0, ix = n["inner"]
+            if b0.get("kind") == "ImplicitCastExpr" and b0.get("castKind") == "ArrayToPointerDecay":
+                base, off, dims, elem, d = self.arrloc(n, env)
+                if dims:
+                    raise Untranslatable("an array row used as a value")
+                return dict(kind="mem", base=base, off=off, t=elem, scale=1, d=d, static=True, cast=False)
+            if self.ptr_view(b0.get("type")) is None:
+                b0, ix = ix, b0                      # the `i[p]` spelling
+            pe = self.pexpr(b0, env)
+            ie = self.expr(ix, env)
+            if ie.t.is_bool:
+                raise Untranslatable("_Bool subscript")
+            off, d = self.padd(pe.v, ie, pe.t.scale)
+            return dict(kind="mem", base=pe.t.base, off=off, t=pe.t.elem, scale=pe.t.scale, d=pe.d + ie.d + d,
+                        static=False, cast=True)
+        if k == "DeclRefExpr" and n["referencedDecl"].get("name") in self.gcells:
+            nm = n["referencedDecl"]["name"]
+            return dict(kind="cell", key="*" + nm, t=self.gcells[nm])
+        raise Untranslatable(f"lvalue of kind {k}")
+
+    def arr_term(self, base, env):
+        ent = env.get("@" + base)
+        if ent is None:
+            raise Untranslatable(f"array `{base}` is not in scope")
+        return ent[0]
+
+    def in_bounds(self, loc, env, nelem, check_align):
+        """conjuncts: `nelem` base elements from loc.off lie inside the array (+ alignment of a typed wide access)"""
+        A = self.arrays[loc["base"]]
+        d = []
+        if not (loc["static"] and nelem == 1):
+            if A.dims is not None:
+                d.append(f"(decide ({self.nat_add(loc['off'], str(nelem))} ≤ {A.total()}))")
+            else:
+                d.append(f"({self.CS}inb {self.arr_term(loc['base'], env)} {loc['off']} {nelem})")
+        if check_align and nelem > 1:
+            d.append(f"({loc['off']} % {nelem} == 0)")
+        init = env.get("?" + loc["base"])
+        return d, init
+
+    def read_loc(self, loc, env):
+        if loc["kind"] == "cell":
+            ent = env.get(loc["key"])
+            if ent is None:
+                raise Untranslatable(f"`{loc['key']}` read before it is assigned")
+            return E(ent[0], ent[1])
+        A = self.arrays[loc["base"]]
+        a, off, t = self.arr_term(loc["base"], env), loc["off"], loc["t"]
+        d, init = self.in_bounds(loc, env, loc["scale"], loc["scale"] > 1)
+        if init is not None:
+            d.append(f"({init[0]}.getD {off} false)")
+        if loc["scale"] == 1:
+            v = f"({self.CS}rd8 {a} {off})" if A.elem.w == 8 else f"({self.CS}rd {a} {off})"
+        else:
+            v = f"({self.CS}ld{t.w}le {a} {off})"
+        return E(v, t, loc["d"] + d)
+
+    def write_loc(self, loc, e, env):
+        """store the value `e` (already of the location's type): (env', conjuncts)"""
+        if not e.t == loc["t"]:
+            raise Untranslatable(f"value of type {e.t!r} stored into a location of type {loc['t']!r}")
+        env = dict(env)
+        if loc["kind"] == "cell":
+            env[loc["key"]] = (self.spill(e.v, e.t), e.t)
+            if loc["key"] not in self.outs:
+                raise Untranslatable(f"internal: store to `{loc['key']}`, which was not found to be written")
+            return env, list(e.d)
+        A = self.arrays[loc["base"]]
+        if not A.writable:
+            raise Untranslatable(f"store into the read-only array `{loc['base']}`")
+        if loc["scale"] != 1:
+            raise Untranslatable("store through a pointer that views bytes as a wider type")
+        key = "@" + loc["base"]
+        a = self.arr_term(loc["base"], env)
+        d, init = self.in_bounds(loc, env, 1, False)
+        f = "wr8" if A.elem.w == 8 else "wr"
+        env[key] = (self.spill_arr(f"({self.CS}{f} {a} {loc['off']} {e.v})", A), A)
+        if init is not None:
+            env["?" + loc["base"]] = (f"({init[0]}.set {loc['off']} true)", init[1])
+        return env, loc["d"] + list(e.d) + d
+
+    def spill_arr(self, v, A):
+        return v
+
+    def memset_stmt(self, n, env):
+        """`memset(p, 0, n)` with constant `n`, a multiple of the element size"""
+        args = n["inner"][1:]
+        if len(args) != 3:
+            raise Untranslatable("memset with other than three arguments")
+        pe = self.pexpr(args[0], env)
+        val, size = self.expr(args[1], env), self.const_size(args[2], env)
+        A = self.arrays[pe.t.base]
+        eb = A.elem.w // 8
+        if not A.writable or pe.t.scale != 1:
+            raise Untranslatable("memset of a read-only array / through a widening view")
+        if size is None or size % eb != 0:
+            raise Untranslatable("memset whose size is not a constant multiple of the element size")
+        if val.lit is None or (val.lit != 0 and eb != 1) or not (0 <= val.lit < 256):
+            raise Untranslatable("memset with a value other than a byte literal (0 for wider elements)")
+        cnt = size // eb
+        a = self.arr_term(pe.t.base, env)
+        loc = dict(kind="mem", base=pe.t.base, off=pe.v, t=A.elem, scale=1, d=pe.d, static=False, cast=False)
+        d, init = self.in_bounds(loc, env, cnt, False)
+        env = dict(env)
+        env["@" + pe.t.base] = (f"({self.CS}fill {a} {pe.v} {cnt} {val.lit if eb == 1 else f'{val.lit}#{A.elem.w}'})", A)
+        if init is not None:
+            env["?" + pe.t.base] = (f"({self.CS}fill {init[0]} {pe.v} {cnt} true)", init[1])
+        return env, pe.d + d
+
+    def memcpy_stmt(self, n, env):
+        """`memcpy(&local, p, sizeof local)`: little-endian load of a scalar local from an array"""
+        args = n["inner"][1:]
+        if len(args) != 3:
+            raise Untranslatable("memcpy with other than three arguments")
+        dst = args[0]
+        while dst.get("kind") in ("ParenExpr", "ImplicitCastExpr", "CStyleCastExpr"):
+            if dst.get("kind") != "ParenExpr" and dst.get("castKind") not in ("BitCast", "NoOp"):
+                raise Untranslatable("memcpy destination")
+            dst = dst["inner"][0]
+        if dst.get("kind") != "UnaryOperator" or dst.get("opcode") != "&":
+            raise Untranslatable("memcpy whose destination is not `&local`")
+        tgt = dst["inner"][0]
+        while tgt.get("kind") == "ParenExpr":
+            tgt = tgt["inner"][0]
+        if tgt.get("kind") != "DeclRefExpr" or tgt["referencedDecl"].get("name") not in env:
+            raise Untranslatable("memcpy whose destination is not the address of a scalar local")
+        nm = tgt["referencedDecl"]["name"]
+        t = self.local_types.get(nm) or (env[nm][1] if env[nm] else None)
+        if not isinstance(t, T) or t.is_bool:
+            raise Untranslatable(f"memcpy into `{nm}`, which is not an integer local")
+        size = self.const_size(args[2], env)
+        if size is None or size * 8 != t.w:
+            raise Untranslatable(f"memcpy into `{nm}` whose size is not the constant sizeof({nm})")
+        src = args[1]
+        pe = self.pexpr(src, env)
+        be = self.arrays[pe.t.base].elem
+        if be.w != 8:
+            raise Untranslatable("memcpy from an array that is not a byte array")
+        loc = dict(kind="mem", base=pe.t.base, off=pe.v, t=t, scale=t.w // 8, d=pe.d, static=False, cast=False)
+        a = self.arr_term(pe.t.base, env)
+        d, init = self.in_bounds(loc, env, t.w // 8, False)
+        if init is not None:
+            raise Untranslatable("memcpy from a local array")
+        v = f"({self.CS}rd8 {a} {pe.v})" if t.w == 8 else f"({self.CS}ld{t.w}le {a} {pe.v})"
+        env = self.bind(env, nm, E(v, t), t)
+        return env, pe.d + d
 
     # ---- helpers
     def atomic(self, v):
@@ -637,19 +1319,49 @@ class Fn:
         return True
 
     def assign(self, s, env):
-        """an expression statement that updates one local: returns (env', definedness conjuncts)"""
+        """an expression statement that updates the state: returns (env', definedness conjuncts)"""
+        self.begin_full()
+        env2, d = self.assign0(s, env)
+        return self.end_full(s, env2), d
+
+    def assign0(self, s, env):
         k = s.get("kind")
         if k == "ParenExpr":
-            return self.assign(s["inner"][0], env)
+            return self.assign0(s["inner"][0], env)
+        if k == "CallExpr":
+            f = s["inner"][0]
+            while f.get("kind") in ("ImplicitCastExpr", "ParenExpr"):
+                f = f["inner"][0]
+            if f.get("kind") == "DeclRefExpr" and f["referencedDecl"].get("name") in ("memcpy", "__builtin_memcpy"):
+                return self.memcpy_stmt(s, env)
+            if f.get("kind") == "DeclRefExpr" and f["referencedDecl"].get("name") in ("memset", "__builtin_memset"):
+                return self.memset_stmt(s, env)
+            e = self.call(s, env)              # a pure function called for nothing: only its definedness matters
+            return env, e.d
+        if k == "CStyleCastExpr" and s.get("castKind") == "ToVoid":
+            e = self.expr(s["inner"][0], env)
+            return env, e.d
         if k in ("BinaryOperator", "CompoundAssignOperator", "UnaryOperator"):
             lhs = s["inner"][0]
             while lhs.get("kind") == "ParenExpr":
                 lhs = lhs["inner"][0]
+            if k == "BinaryOperator" and s["opcode"] == ",":
+                env1, d1 = self.assign0(s["inner"][0], env)
+                env2, d2 = self.assign0(s["inner"][1], env1)
+                return env2, d1 + d2
+            is_var = lhs.get("kind") == "DeclRefExpr" and lhs["referencedDecl"].get("kind") in ("ParmVarDecl", "VarDecl") \
+                and lhs["referencedDecl"]["name"] in env
+            if not is_var and (k != "UnaryOperator" or s["opcode"] in ("++", "--")) and \
+                    (k != "BinaryOperator" or s["opcode"] == "="):
+                if lhs.get("kind") in ("ArraySubscriptExpr", "UnaryOperator", "DeclRefExpr"):
+                    return self.store(s, lhs, env)
             if lhs.get("kind") != "DeclRefExpr" or lhs["referencedDecl"].get("kind") not in ("ParmVarDecl", "VarDecl"):
                 raise Untranslatable("assignment to something that is not a local variable or parameter")
             nm = lhs["referencedDecl"]["name"]
             if nm not in env:
                 raise Untranslatable(f"assignment to `{nm}`, which is not a scalar local")
+            if self.ptr_view(lhs["type"]) is not None:
+                return self.assign_ptr(s, nm, env)
             lt = self.ctype(lhs["type"])
         if k == "BinaryOperator" and s["opcode"] == "=":
             e = self.expr(s["inner"][1], env)
@@ -679,6 +1391,71 @@ class Fn:
             return self.bind(env, nm, E(f"({v} {op} 1#{lt.w})", lt), lt), d
         raise Untranslatable(f"statement expression of kind {k} (only assignments to locals and ++/-- are supported)")
 
+    def assign_ptr(self, s, nm, env):
+        """`p = q + k`, `p += k`, `p -= k`, `p++`, `p--` on a pointer variable"""
+        k = s.get("kind")
+        cur = env[nm]
+        if k == "BinaryOperator" and s["opcode"] == "=":
+            pe = self.pexpr(s["inner"][1], env)
+            view = self.ptr_view(s["inner"][0]["type"])
+            pe = self.review(pe, view)
+            if cur is not None and cur[1].base != pe.t.base:
+                raise Untranslatable(f"pointer `{nm}` is made to point into another array")
+            env = dict(env)
+            env[nm] = (pe.v, pe.t)
+            return env, pe.d
+        if cur is None:
+            raise Untranslatable(f"pointer `{nm}` is used before it is assigned")
+        v, t = cur
+        if k == "CompoundAssignOperator" and s["opcode"] in ("+=", "-="):
+            ie = self.expr(s["inner"][1], env)
+            if ie.t.is_bool:
+                raise Untranslatable("pointer += _Bool")
+            off, d = self.padd(v, ie, t.scale, 1 if s["opcode"] == "+=" else -1)
+            env = dict(env)
+            env[nm] = (off, t)
+            return env, ie.d + d
+        if k == "UnaryOperator" and s["opcode"] in ("++", "--"):
+            off, d = self.padd(v, E("1", BASE["int"], lit=1), t.scale, 1 if s["opcode"] == "++" else -1)
+            env = dict(env)
+            env[nm] = (off, t)
+            return env, d
+        raise Untranslatable(f"operation on pointer `{nm}`")
+
+    def store(self, s, lhs, env):
+        """`*out = e`, `a[i] = e`, `a[i] op= e`, `(*p)++` and the same on a scalar global"""
+        k = s.get("kind")
+        loc = self.lvalue(lhs, env)
+        lt = loc["t"]
+        if k == "BinaryOperator" and s["opcode"] == "=":
+            e = self.expr(s["inner"][1], env)
+            return self.write_loc(loc, e, env)
+        if k == "CompoundAssignOperator":
+            op = s["opcode"][:-1]
+            clt, crt = self.ctype(s["computeLHSType"]), self.ctype(s["computeResultType"])
+            old = self.read_loc(loc, env)
+            a = self.cast(old, clt)
+            fake = dict(kind="BinaryOperator", opcode=op, type=s["computeResultType"], inner=[None, s["inner"][1]])
+            r = self.binop_with(fake, a, env)
+            if not r.t == crt:
+                raise Untranslatable("compound assignment: unexpected computation type")
+            r = self.cast(r, lt)
+            loc = dict(loc)
+            loc["d"] = []                         # the location's own conjuncts are already in `old`
+            env2, dl = self.write_loc(loc, r, env)
+            return env2, uniq(dl)
+        if k == "UnaryOperator" and s["opcode"] in ("++", "--"):
+            old = self.read_loc(loc, env)
+            up = s["opcode"] == "++"
+            d = list(old.d)
+            if lt.signed and lt.w >= 32:
+                d.append(f"({self.CS}{'sAddOk' if up else 'sSubOk'} {old.v} 1#{lt.w})")
+            loc = dict(loc)
+            loc["d"] = []
+            env2, dl = self.write_loc(loc, E(f"({old.v} {'+' if up else '-'} 1#{lt.w})", lt, d), env)
+            return env2, uniq(dl)
+        raise Untranslatable(f"store of kind {k}")
+
     def binop_with(self, n, a, env):
         """binop where the left operand is already translated"""
         saved = self.expr
@@ -693,6 +1470,32 @@ class Fn:
         finally:
             self.expr = saved
 
+    LOOPS = ("WhileStmt", "ForStmt", "DoStmt")
+
+    def mkret(self, e, env):
+        """the value a `return` yields: the returned value (if any) and the final content of every out-state"""
+        comps = [] if self.ret is None else [e.v]
+        for key in self.outs:
+            if env.get(key) is None:
+                raise Untranslatable(f"internal: `{key}` has no value at a return")
+            comps.append(env[key][0])
+        if not comps:
+            return "()"
+        return comps[0] if len(comps) == 1 else "(" + ", ".join(comps) + ")"
+
+    def ret_lean(self):
+        comps = ([] if self.ret is None else [self.ret.lean()]) + [self.key_type(k_).lean() for k_ in self.outs]
+        if not comps:
+            return "Unit"
+        return comps[0] if len(comps) == 1 else "(" + " × ".join(comps) + ")"
+
+    def key_type(self, key):
+        if key[0] == "@":
+            return self.arrays[key[1:]]
+        if key[0] == "*":
+            return self.cells.get(key[1:]) or self.gcells[key[1:]]
+        raise Untranslatable(f"internal: type of `{key}`")
+
     def stmts(self, lst, env, k):
         lst = [s for s in lst if s and s.get("kind") != "NullStmt"]
         if not lst:
@@ -703,27 +1506,87 @@ class Fn:
             return self.stmts(rest, env2, k)
         kind = s.get("kind")
         if kind == "CompoundStmt":
-            return self.stmts(s.get("inner", []) + rest, env, k)
+            if self.cfg["stage"] == 1 or not rest:
+                return self.stmts(s.get("inner", []) + rest, env, k)
+            mine = [x for d_ in s.get("inner", []) if d_.get("kind") == "DeclStmt" for x in self.declared_in(d_)]
+            return self.stmts(s.get("inner", []), env, lambda e2: cont(self.unscope(e2, mine)))
         if kind == "ReturnStmt":
             if not s.get("inner"):
-                raise Untranslatable("return without a value")
+                if self.ret is not None:
+                    raise Untranslatable("return without a value")
+                if self.ret_mode != "fn":
+                    raise Untranslatable("return inside a nested loop")
+                return self.mkret(None, env), "true"
+            if self.ret is None:
+                raise Untranslatable("return with a value in a void function")
+            if self.ret_mode != "fn":
+                raise Untranslatable("return inside a nested loop")
+            oc = self.out_call(s["inner"][0])
+            if oc is not None:
+                callee = self.callee_of(oc)
+                if not callee["ret"] == self.ret:
+                    raise Untranslatable("returned value is not of the return type")
+
+                def kr(env2):
+                    return self.mkret(E(f"r__{self.nbind}", self.ret), env2), "true"
+                return self.bind_call(oc, env, kr, target="r__ret", target_t=self.ret)
+            self.begin_full()
             e = self.expr(s["inner"][0], env)
+            env = self.end_full(s, env)
             if not e.t == self.ret:
                 raise Untranslatable("returned value is not of the return type")
-            return e.v, dand(e.d)
+            return self.mkret(e, env), dand(e.d)
+        if kind == "BreakStmt":
+            if not self.break_k:
+                raise Untranslatable("break outside a loop")
+            return self.break_k[-1](env)
         if kind == "DeclStmt":
             d = []
-            for v in s["inner"]:
+            for i_, v in enumerate(s["inner"]):
                 if v.get("kind") != "VarDecl":
                     raise Untranslatable(f"declaration of a {v.get('kind')}")
                 nm = v["name"]
-                if nm in env or nm in self.ptr_params:
+                if nm in env or nm in self.ptr_params or "@" + nm in env:
                     raise Untranslatable(f"local `{nm}` shadows another variable")
+                if v.get("storageClass") in ("static", "extern") and self.ptr_view(v["type"]) is None and \
+                        self.arr_type_of(v["type"]) is None:
+                    t = self.ctype(v["type"])
+                    raise Untranslatable(f"static/extern local `{nm}`")
+                if self.ptr_view(v["type"]) is not None:
+                    if v.get("storageClass") in ("static", "extern"):
+                        raise Untranslatable(f"static/extern local `{nm}`")
+                    env = dict(env)
+                    if "init" in v:
+                        self.begin_full()
+                        pe = self.review(self.pexpr(v["inner"][0], env), self.ptr_view(v["type"]))
+                        env = self.end_full(v, env)
+                        d += pe.d
+                        env[nm] = (pe.v, pe.t)
+                    else:
+                        env[nm] = None
+                    continue
+                at = self.arr_type_of(v["type"])
+                if at is not None:
+                    if v.get("storageClass") in ("static", "extern"):
+                        raise Untranslatable(f"static/extern local `{nm}`")
+                    env, d2 = self.local_array(v, at, env)
+                    d += d2
+                    continue
                 t = self.ctype(v["type"])
                 if v.get("storageClass") in ("static", "extern"):
                     raise Untranslatable(f"static/extern local `{nm}`")
                 if "init" in v:
+                    oc = self.out_call(v["inner"][0])
+                    if oc is not None:
+                        later = [dict(kind="DeclStmt", inner=s["inner"][i_ + 1:])] if s["inner"][i_ + 1:] else []
+                        self.local_types[nm] = t
+                        env = dict(env)
+                        env[nm] = None
+                        V, D = self.bind_call(oc, env, lambda e2: self.stmts(later + rest, e2, k), target=nm, target_t=t)
+                        return V, dand(d + [D])
+                    self.begin_full()
                     e = self.expr(v["inner"][0], env)
+                    env = self.end_full(v, env)
                     d += e.d
                     env = self.bind(env, nm, e, t)
                 else:
@@ -733,19 +1596,33 @@ class Fn:
                 self.local_types[nm] = t
             V, D = cont(env)
             return V, dand(d + [D])
-        if kind in ("BinaryOperator", "CompoundAssignOperator", "UnaryOperator", "ParenExpr"):
+        if kind == "CallExpr" and self.out_call(s) is not None:
+            return self.bind_call(s, env, cont)
+        if kind == "BinaryOperator" and s.get("opcode") == "=" and self.out_call(s["inner"][1]) is not None:
+            lhs = s["inner"][0]
+            while lhs.get("kind") == "ParenExpr":
+                lhs = lhs["inner"][0]
+            if lhs.get("kind") != "DeclRefExpr" or lhs["referencedDecl"].get("name") not in env or \
+                    self.ptr_view(lhs["type"]) is not None:
+                raise Untranslatable("the result of a call with out-results must be stored into a scalar local")
+            return self.bind_call(self.out_call(s["inner"][1]), env, cont, target=lhs["referencedDecl"]["name"],
+                                  target_t=self.ctype(lhs["type"]))
+        if kind in ("BinaryOperator", "CompoundAssignOperator", "UnaryOperator", "ParenExpr", "CallExpr", "CStyleCastExpr"):
             env2, d = self.assign(s, env)
             V, D = cont(env2)
             return V, dand(d + [D])
         if kind == "IfStmt":
             if s.get("hasInit") or s.get("hasVar"):
                 raise Untranslatable("if with a declaration")
+            self.begin_full()
             c = self.expr(s["inner"][0], env)
+            env = self.end_full(s["inner"][0], env)
             cb = self.cond(c)
             then = s["inner"][1]
             els = s["inner"][2] if s.get("hasElse") else None
             impure = ("ReturnStmt", "WhileStmt", "ForStmt", "DoStmt", "SwitchStmt", "BreakStmt", "ContinueStmt", "GotoStmt")
-            if not self.contains(then, impure) and (els is None or not self.contains(els, impure)):
+            if not self.contains(then, impure) and (els is None or not self.contains(els, impure)) and \
+                    not self.contains_outcall(s):
                 cap = {}
 
                 def capture(tag):
@@ -766,16 +1643,24 @@ class Fn:
                     elif v1 is None or v2 is None:
                         env2[nm] = None          # assigned on one path only and never before: still unusable
                     else:
+                        if isinstance(v1[1], PTR) and not v1[1] == v2[1]:
+                            raise Untranslatable(f"pointer `{nm}` points into different arrays after an if")
                         env2[nm] = (self.spill(ite(cb, v1[0], v2[0]), v1[1]), v1[1])
                 V, D = cont(env2)
                 return V, dand(d + [D])
-            V1, D1 = self.stmts([then], env, cont)
-            V2, D2 = self.stmts([els] if els else [], env, cont)
+            kj = cont
+            if rest and self.falls(then) and (els is None or self.falls(els)) and self.ret_mode == "fn" and \
+                    not self.in_loop_body and any(self.contains(r, self.LOOPS) for r in rest):
+                kj = self.join(env, [then] + ([els] if els else [None]), cont)
+            V1, D1 = self.stmts([then], env, kj)
+            V2, D2 = self.stmts([els] if els else [], env, kj)
             return ite(cb, V1, V2), dand(c.d + [ite(cb, D1, D2)])
         if kind == "WhileStmt":
             if len(s["inner"]) != 2:
                 raise Untranslatable("while with a declaration")
-            return self.loop(s["inner"][0], [s["inner"][1]], env, cont)
+            return self.loop(s["inner"][0], [s["inner"][1]], env, cont, node=s)
+        if kind == "DoStmt":
+            return self.loop(s["inner"][1], [s["inner"][0]], env, cont, do=True, node=s)
         if kind == "ForStmt":
             init, condvar, cnd, inc, body = s["inner"]
             if condvar:
@@ -786,58 +1671,430 @@ class Fn:
                 raise Untranslatable("continue in a for loop")
 
             def after_init(env2):
-                return self.loop(cnd, [body] + ([inc] if inc else []), env2, cont)
+                mine = self.declared_in(init)
+                return self.loop(cnd, [body] + ([inc] if inc else []), env2,
+                                 (lambda e3: cont(self.unscope(e3, mine))) if mine and self.cfg["stage"] == 2 else cont, node=s)
             return self.stmts([init] if init else [], env, after_init)
         if kind == "SwitchStmt":
             return self.switch(s, env, cont)
         raise Untranslatable(f"statement kind {kind} is outside the supported subset")
 
-    def loop(self, cnd, body, env, k):
+    def unscope(self, env, names):
+        """the environment after the block that declared `names` has been left"""
+        if not names:
+            return env
+        return {x: v for x, v in env.items() if x not in names and not (x[0] in "@?" and x[1:] in names)}
+
+    def declared_in(self, n):
+        if not n or n.get("kind") != "DeclStmt":
+            return []
+        return [v["name"] for v in n.get("inner", []) if v.get("kind") == "VarDecl"]
+
+    def local_array(self, v, at, env):
+        """`T a[N];` (elements indeterminate until written: a shadow list of flags) or `T a[N] = {e0, .., 0 ..}`"""
+        nm = v["name"]
+        t, dims = at
+        A = ARR(t, dims, writable=True, kind="local")
+        self.arrays[nm] = A
+        env = dict(env)
+        d = []
+        if "init" in v:
+            init = v["inner"][0]
+            if init.get("kind") != "InitListExpr" or len(dims) != 1:
+                raise Untranslatable(f"initialiser of local array `{nm}`")
+            elems = []
+            items = init.get("inner", [])
+            if init.get("array_filler"):               # `{a, b}` for a longer array: clang lists the filler first
+                items = [x for x in init["array_filler"] if x.get("kind") != "ImplicitValueInitExpr"]
+            for x in items:
+                self.begin_full()
+                e = self.expr(x, env)
+                env = self.end_full(x, env)
+                if not e.t == t:
+                    raise Untranslatable(f"initialiser of `{nm}`: element of type {e.t!r}")
+                d += e.d
+                elems.append(e.v if t.w != 8 else f"(UInt8.ofBitVec {e.v})")
+            if len(elems) > dims[0]:
+                raise Untranslatable(f"too many initialisers for `{nm}`")
+            zero = "0" if t.w == 8 else f"0#{t.w}"
+            fill = dims[0] - len(elems)
+            term = "[" + ", ".join(elems) + "]"
+            if fill:
+                term = f"(List.replicate {fill} {zero})" if not elems else f"({term} ++ List.replicate {fill} {zero})"
+            env["@" + nm] = (term, A)
+        else:
+            zero = "0" if t.w == 8 else f"0#{t.w}"
+            env["@" + nm] = (f"(List.replicate {A.total()} {zero})", A)
+            env["?" + nm] = (f"(List.replicate {A.total()} false)", FLAGS)
+        return env, d
+
+    def snapshot(self):
+        return (len(self.defs), self.nv, self.nloop, self.njoin, self.nbind, list(self.scope), list(self.break_k),
+                self.in_loop_body, self.ret_mode, list(self.paths))
+
+    def restore(self, snap):
+        n, self.nv, self.nloop, self.njoin, self.nbind, self.scope, self.break_k, self.in_loop_body, self.ret_mode, \
+            self.paths = snap
+        del self.defs[n:]
+
+    def is_closed(self, v):
+        return re.fullmatch(r"\d+", v) is not None
+
+    def frame(self, env, keys):
+        """formal parameters [(lean name, type)] for the state variables `keys`, and the environment in which every
+        one of them is its own formal parameter"""
+        params = [(self.lname(x), env[x][1]) for x in keys]
+        names = [p_ for p_, _ in self.ro_params()] + [p_ for p_, _ in params]
+        if len(set(names)) != len(names):
+            raise Untranslatable("parameter names of a helper definition collide: " + " ".join(names))
+        inner = dict(env)
+        for x in keys:
+            inner[x] = (self.lname(x), env[x][1])
+        return params, inner
+
+    def ro_params(self):
+        """what every helper definition receives unchanged: struct access paths and read-only array parameters"""
+        return [(ident("_".join(p_)), t) for p_, t in self.all_paths] + \
+               [(self.lname("@" + a), self.arrays[a]) for a in self.ro_arrays]
+
+    def passed_keys(self, env, exits=None, modified=None):
+        """the state variables a helper definition must take as parameters"""
+        keys = []
+        for x in env:
+            if env[x] is None:
+                continue
+            if x[0] == "@" and (x[1:] in self.ro_arrays or self.arrays[x[1:]].kind == "const"):
+                continue
+            if exits is not None:
+                if any(e_.get(x) is None for e_ in exits):
+                    continue
+                vals = {e_[x][0] for e_ in exits}
+                if isinstance(env[x][1], PTR) and len(vals) == 1 and self.is_closed(next(iter(vals))):
+                    continue
+            elif isinstance(env[x][1], PTR) and self.is_closed(env[x][0]) and modified is not None and x not in modified:
+                continue
+            keys.append(x)
+        return keys
+
+    def join(self, env, branches, cont):
+        """the continuation `cont` of an if whose branches both fall through, as a definition of its own (so that the
+        loops it contains are translated once); returns the continuation to give to the branches"""
+        snap = self.snapshot()
+        exits = []
+
+        def probe(e2):
+            exits.append(e2)
+            return "J", "true"
+        for b in branches:
+            self.stmts([b] if b else [], env, probe)
+        self.restore(snap)
+        pre = {x: env[x] for x in env}
+        for x in env:                                   # variables first assigned in both branches
+            if env[x] is None and all(e_.get(x) is not None for e_ in exits):
+                pre[x] = exits[0][x]
+        keys = self.passed_keys(pre, exits=exits)
+        params, inner = self.frame(pre, keys)
+        for x in pre:
+            if pre[x] is not None and x not in keys and isinstance(pre[x][1], PTR):
+                inner[x] = exits[0][x]                # the same closed offset at every exit
+        self.njoin += 1
+        nm = f"{self.name}_k{self.njoin}"
+        ro = self.ro_params()
+        allp = ro + params
+        outer_scope = self.scope
+        self.scope = allp
+        Vk, Dk = cont(inner)
+        self.scope = outer_scope
+        ps = " ".join(f"({p_} : {t.lean()})" for p_, t in allp)
+        self.defs.append(f"/-- what follows the if-statement that ends before join point #{self.njoin} of `{self.cfg['cname']}` -/\n"
+                         f"def {nm} {ps} : {self.ret_lean()} :=\n  {Vk}\n")
+        self.defs.append(f"def {nm}_defined {ps} : Bool :=\n  {Dk}\n")
+
+        def kj(e2):
+            a = " ".join([p_ for p_, _ in ro] + [e2[x][0] for x in keys])
+            return f"({nm} {a})", f"({nm}_defined {a})"
+        return kj
+
+    def assigned_in(self, nodes):
+        """env keys that the statements `nodes` may modify (conservative: any store or call with out-results counts
+        as a modification of every writable array and cell)"""
+        out = set()
+        stores, calls = [False], [False]
+
+        def root(l):
+            while l.get("kind") == "ParenExpr":
+                l = l["inner"][0]
+            if l.get("kind") == "DeclRefExpr":
+                nm = l["referencedDecl"].get("name")
+                out.add("*" + nm if nm in self.gcells else nm)
+                return
+            if l.get("kind") == "UnaryOperator" and l.get("opcode") == "*":
+                x = l["inner"][0]
+                while x.get("kind") == "ParenExpr" or (x.get("kind") == "ImplicitCastExpr" and x.get("castKind") == "LValueToRValue"):
+                    x = x["inner"][0]
+                if x.get("kind") == "DeclRefExpr" and x["referencedDecl"].get("name") in self.cells:
+                    out.add("*" + x["referencedDecl"]["name"])
+                    return
+            stores[0] = True
+
+        def walk(n):
+            k = n.get("kind")
+            if k == "CompoundAssignOperator" or (k == "BinaryOperator" and n.get("opcode") == "=") or \
+                    (k == "UnaryOperator" and n.get("opcode") in ("++", "--")):
+                root(n["inner"][0])
+            if k == "CallExpr":
+                f = n["inner"][0]
+                while f.get("kind") in ("ImplicitCastExpr", "ParenExpr"):
+                    f = f["inner"][0]
+                fn = f.get("referencedDecl", {}).get("name")
+                if fn in ("memcpy", "__builtin_memcpy"):
+                    for x in self.addr_of_names(n["inner"][1]):
+                        out.add(x)
+                elif self.out_call(n) is not None:
+                    calls[0] = True
+                    for a in n["inner"][1:]:
+                        for x in self.addr_of_names(a):
+                            out.add(x)
+            for c in n.get("inner", []):
+                if isinstance(c, dict):
+                    walk(c)
+        for n in nodes:
+            if n:
+                walk(n)
+        if calls[0]:
+            out |= set(self.outs)
+        if stores[0] or calls[0]:
+            out |= {"@" + a for a in self.arrays if self.arrays[a].writable}
+            out |= {"?" + a for a in self.arrays if self.arrays[a].kind == "local"}
+        return out
+
+    def addr_of_names(self, n):
+        res = []
+        if n.get("kind") == "UnaryOperator" and n.get("opcode") == "&":
+            x = n["inner"][0]
+            while x.get("kind") == "ParenExpr":
+                x = x["inner"][0]
+            if x.get("kind") == "DeclRefExpr":
+                res.append(x["referencedDecl"].get("name"))
+        for c in n.get("inner", []):
+            if isinstance(c, dict):
+                res += self.addr_of_names(c)
+        return res
+
+    def loop_breaks(self, n):
+        """`n` contains a break that belongs to the enclosing loop"""
+        k = n.get("kind")
+        if k == "BreakStmt":
+            return True
+        if k in self.LOOPS or k == "SwitchStmt":
+            return False
+        return any(self.loop_breaks(c) for c in n.get("inner", []) if isinstance(c, dict))
+
+    def fuel_term(self, spec, env):
+        if isinstance(spec, int):
+            return str(spec)
+
+        def sub(m):
+            key = m.group(1)
+            if env.get(key) is None:
+                raise Untranslatable(f"fuel expression `{spec}` mentions `{key}`, which has no value at the loop")
+            return env[key][0]
+        return "(" + re.sub(r"\{([@*]?\w+)\}", sub, spec) + ")"
+
+    def loop(self, cnd, body, env, k, do=False, drop=(), node=None):
         for b in body:
-            if self.contains(b, ("BreakStmt", "ContinueStmt", "GotoStmt")):
-                raise Untranslatable("break/continue/goto inside a loop")
-        if self.in_loop_body:
-            raise Untranslatable("a loop inside a loop body (nested loops are outside the supported subset)")
-        if self.nloop >= len(self.cfg["fuel"]):
-            raise Untranslatable(f"loop #{self.nloop + 1} has no fuel constant in FUNCS")
-        fuel = self.cfg["fuel"][self.nloop]
+            if self.contains(b, ("ContinueStmt", "GotoStmt")):
+                raise Untranslatable("continue/goto inside a loop")
+        has_break = any(self.loop_breaks(b) for b in body)
+        nloop = self.loop_no[node["id"]]                     # loops are numbered in source order
+        if nloop > len(self.cfg["fuel"]):
+            raise Untranslatable(f"loop #{nloop} has no fuel constant in FUNCS")
+        fuel = self.fuel_term(self.cfg["fuel"][nloop - 1], env)
         self.nloop += 1
-        nm = f"{self.name}_loop{self.nloop}"
-        live = [x for x in env if env[x] is not None]
-        ro = [(ident("_".join(p)), t) for p, t in self.all_paths]
-        params = ro + [(ident(x), env[x][1]) for x in live]
+        nm = f"{self.name}_loop{nloop}"
+        if any(d_.startswith(f"def {nm} ") or f"\ndef {nm} " in d_ for d_ in self.defs):
+            raise Untranslatable(f"loop #{nloop} is reached along two paths (the statements after an if that contains a "
+                                 f"return or a loop are duplicated into both branches)")
+        if self.in_loop_body:
+            return self.inner_loop(nm, nloop, fuel, cnd, body, env, k, do, has_break)
+        stage1 = self.cfg["stage"] == 1
+        if stage1:
+            live = [x for x in env if env[x] is not None]
+        else:
+            live = self.passed_keys(env, modified=self.assigned_in([cnd] + body))
+        ro = self.ro_params()
+        lp, inner_env = self.frame(env, live)
+        params = ro + lp
         outer_scope = self.scope
         self.scope = params
-        inner_env = {x: (None if env[x] is None else (ident(x), env[x][1])) for x in env}
-        c = self.expr(cnd, inner_env)
-        cb = self.cond(c)
+        pat = ", ".join(p for p, _ in params)
+        tys = " → ".join(["Nat"] + [t.lean() for _, t in params])
 
-        def again(env2):
+        def args_of(env2):
+            for x in env:
+                if env[x] is None and env2.get(x) is not None and x not in drop:
+                    pass
+            return " ".join([p for p, _ in ro] + [env2[x][0] for x in live])
+
+        def again0(env2):
             for x in env:
                 if env[x] is None and env2.get(x) is not None:
                     raise Untranslatable(f"`{x}` is first assigned inside a loop")
-            a = " ".join([p for p, _ in ro] + [env2[x][0] for x in live])
+            a = args_of(env2)
             return f"({nm} fuel__ {a})", f"({nm}_defined fuel__ {a})"
+
+        # the exit continuation: inline (as in stage 1) unless the loop can be left from several places
+        if do or has_break:
+            self.njoin += 1
+            kn = f"{self.name}_k{self.njoin}"
+            Vx, Dx = k(inner_env)
+            ps = " ".join(f"({p_} : {t.lean()})" for p_, t in params)
+            self.defs.append(f"/-- what follows loop #{nloop} of `{self.cfg['cname']}` -/\n"
+                             f"def {kn} {ps} : {self.ret_lean()} :=\n  {Vx}\n")
+            self.defs.append(f"def {kn}_defined {ps} : Bool :=\n  {Dx}\n")
+
+            def leave(env2):
+                a = args_of(env2)
+                return f"({kn} {a})", f"({kn}_defined {a})"
+        else:
+            leave = None
+
+        def test(env_c):
+            self.begin_full()
+            c = self.expr(cnd, env_c)
+            return c, self.cond(c), self.end_full(cnd, env_c)
+
         self.in_loop_body = True
+        self.break_k.append(leave)
         try:
-            Vb, Db = self.stmts(body, inner_env, again)
+            if do:
+                def again(env2):
+                    c, cb, env3 = test(env2)
+                    Va, Da = again0(env3)
+                    Vl, Dl = leave(env3)
+                    return ite(cb, Va, Vl), dand(c.d + [ite(cb, Da, Dl)])
+                Vb, Db = self.stmts(body, inner_env, again)
+            else:
+                c, cb, env_c = test(inner_env)
+                Vb, Db = self.stmts(body, env_c, again0)
         finally:
             self.in_loop_body = False
-        Vk, Dk = k(inner_env)
+            self.break_k.pop()
+        if do:
+            V0, _ = leave(inner_env)
+            self.defs.append(
+                f"/-- loop #{nloop} of `{self.cfg['cname']}` (a do-while: the body runs before the test); `fuel__` bounds the number of iterations -/\n"
+                f"def {nm} : {tys} → {self.ret_lean()}\n"
+                f"  | 0, {pat} => {V0}\n"
+                f"  | fuel__ + 1, {pat} =>\n    {Vb}\n")
+            self.defs.append(
+                f"def {nm}_defined : {tys} → Bool\n"
+                f"  | 0, {pat} => false\n"
+                f"  | fuel__ + 1, {pat} =>\n    {Db}\n")
+        else:
+            if leave is not None:
+                Vk, Dk = leave(env_c)
+            else:
+                Vk, Dk = k(env_c)
+            V0 = Vk
+            if env_c is not inner_env:
+                V0, _ = leave(inner_env) if leave is not None else k(inner_env)
+            self.defs.append(
+                f"/-- loop #{nloop} of `{self.cfg['cname']}` (and what follows it); `fuel__` bounds the number of condition tests -/\n"
+                f"def {nm} : {tys} → {self.ret_lean()}\n"
+                f"  | 0, {pat} => {V0}\n"
+                f"  | fuel__ + 1, {pat} =>\n    if {cb} then {Vb}\n    else {Vk}\n")
+            self.defs.append(
+                f"def {nm}_defined : {tys} → Bool\n"
+                f"  | 0, {pat} => false\n"
+                f"  | fuel__ + 1, {pat} =>\n    {dand(c.d + [ite(cb, Db, Dk)])}\n")
         self.scope = outer_scope
-        tys = " → ".join(["Nat"] + [t.lean() for _, t in params])
-        pat = ", ".join(p for p, _ in params)
-        self.defs.append(
-            f"/-- loop #{self.nloop} of `{self.cfg['cname']}` (and what follows it); `fuel__` bounds the number of condition tests -/\n"
-            f"def {nm} : {tys} → {self.ret.lean()}\n"
-            f"  | 0, {pat} => {Vk}\n"
-            f"  | fuel__ + 1, {pat} =>\n    if {cb} then {Vb}\n    else {Vk}\n")
-        self.defs.append(
-            f"def {nm}_defined : {tys} → Bool\n"
-            f"  | 0, {pat} => false\n"
-            f"  | fuel__ + 1, {pat} =>\n    {dand(c.d + [ite(cb, Db, Dk)])}\n")
         a = " ".join([p for p, _ in ro] + [env[x][0] for x in live])
         return f"({nm} {fuel} {a})", f"({nm}_defined {fuel} {a})"
+
+    def inner_loop(self, nm, nloop, fuel, cnd, body, env, k, do, has_break):
+        """a loop inside a loop body: a definition of its own that returns the variables it modifies"""
+        for b in body:
+            if self.contains(b, ("ReturnStmt",)):
+                raise Untranslatable("return inside a nested loop")
+        mod_all = self.assigned_in([cnd] + body)
+        live = self.passed_keys(env, modified=mod_all)
+        mod = [x for x in live if x in mod_all]
+        ro = self.ro_params()
+        lp, inner_env = self.frame(env, live)
+        params = ro + lp
+        outer_scope, outer_mode = self.scope, self.ret_mode
+        self.scope = params
+        self.ret_mode = "loop"
+        pat = ", ".join(p for p, _ in params)
+        tys = " → ".join(["Nat"] + [t.lean() for _, t in params])
+        rty = "Unit" if not mod else (env[mod[0]][1].lean() if len(mod) == 1 else
+                                      "(" + " × ".join(env[x][1].lean() for x in mod) + ")")
+
+        def state(env2):
+            if not mod:
+                return "()", "true"
+            vs = [env2[x][0] for x in mod]
+            return (vs[0] if len(vs) == 1 else "(" + ", ".join(vs) + ")"), "true"
+
+        def again0(env2):
+            for x in env:
+                if env[x] is None and env2.get(x) is not None:
+                    pass                                   # a local of the enclosing body first assigned here: dropped
+            a = " ".join([p for p, _ in ro] + [env2[x][0] for x in live])
+            return f"({nm} fuel__ {a})", f"({nm}_defined fuel__ {a})"
+
+        def test(env_c):
+            self.begin_full()
+            c = self.expr(cnd, env_c)
+            return c, self.cond(c), self.end_full(cnd, env_c)
+        self.break_k.append(state)
+        try:
+            if do:
+                def again(env2):
+                    c, cb, env3 = test(env2)
+                    Va, Da = again0(env3)
+                    Vl, Dl = state(env3)
+                    return ite(cb, Va, Vl), dand(c.d + [ite(cb, Da, Dl)])
+                Vb, Db = self.stmts(body, inner_env, again)
+                V0, _ = state(inner_env)
+                self.defs.append(
+                    f"/-- nested loop #{nloop} of `{self.cfg['cname']}` (do-while): the variables it modifies -/\n"
+                    f"def {nm} : {tys} → {rty}\n  | 0, {pat} => {V0}\n  | fuel__ + 1, {pat} =>\n    {Vb}\n")
+                self.defs.append(
+                    f"def {nm}_defined : {tys} → Bool\n  | 0, {pat} => false\n  | fuel__ + 1, {pat} =>\n    {Db}\n")
+            else:
+                c, cb, env_c = test(inner_env)
+                Vb, Db = self.stmts(body, env_c, again0)
+                Vk, Dk = state(env_c)
+                V0, _ = state(inner_env)
+                self.defs.append(
+                    f"/-- nested loop #{nloop} of `{self.cfg['cname']}`: the variables it modifies -/\n"
+                    f"def {nm} : {tys} → {rty}\n  | 0, {pat} => {V0}\n"
+                    f"  | fuel__ + 1, {pat} =>\n    if {cb} then {Vb}\n    else {Vk}\n")
+                self.defs.append(
+                    f"def {nm}_defined : {tys} → Bool\n  | 0, {pat} => false\n"
+                    f"  | fuel__ + 1, {pat} =>\n    {dand(c.d + [ite(cb, Db, Dk)])}\n")
+        finally:
+            self.break_k.pop()
+            self.scope, self.ret_mode = outer_scope, outer_mode
+        a = " ".join([p for p, _ in ro] + [env[x][0] for x in live])
+        call, calld = f"({nm} {fuel} {a})", f"({nm}_defined {fuel} {a})"
+        env2 = dict(env)
+        names = [f"{self.lname(x)}__l{nloop}" for x in mod]      # fresh: terms of other variables may mention the old names
+        for x, fresh in zip(mod, names):
+            env2[x] = (fresh, env[x][1])
+        self.scope = outer_scope + [(fresh, env[x][1]) for x, fresh in zip(mod, names)]
+        try:
+            V, D = k(env2)
+        finally:
+            self.scope = outer_scope
+        if not mod:
+            return V, dand([calld, D])
+        pat2 = names[0] if len(names) == 1 else "(" + ", ".join(names) + ")"
+        Vm = f"(match {call} with\n    | {pat2} => {V})"
+        Dm = dand([calld] + ([] if D == "true" else [f"(match {call} with\n    | {pat2} => {D})"]))
+        return Vm, Dm
 
     def switch(self, s, env, k):
         if len(s["inner"]) != 2 or s["inner"][1].get("kind") != "CompoundStmt":
@@ -894,35 +2151,280 @@ class Fn:
         return V, dand(c.d + [D])
 
     # ---- the whole function
+    def deref_only(self, body, name):
+        """every use of pointer parameter `name` in `body` is `*name`"""
+        ok = [True]
+
+        def walk(n, parents):
+            if n.get("kind") == "DeclRefExpr" and n.get("referencedDecl", {}).get("name") == name and \
+                    n["referencedDecl"].get("kind") == "ParmVarDecl":
+                ps = [q for q in parents if q.get("kind") != "ParenExpr"]
+                if not (len(ps) >= 2 and ps[-1].get("kind") == "ImplicitCastExpr" and ps[-1].get("castKind") == "LValueToRValue"
+                        and ps[-2].get("kind") == "UnaryOperator" and ps[-2].get("opcode") == "*"):
+                    ok[0] = False
+            for c in n.get("inner", []):
+                if isinstance(c, dict):
+                    walk(c, parents + [n])
+        walk(body, [])
+        return ok[0]
+
+    def const_int(self, n, t):
+        """value of a constant initialiser element, converted to type `t`"""
+        k = n.get("kind")
+        if k in ("ParenExpr", "ConstantExpr"):
+            return self.const_int(n["inner"][0], t)
+        if k in ("ImplicitCastExpr", "CStyleCastExpr") and n.get("castKind") in ("IntegralCast", "NoOp"):
+            it = self.ctype(n["type"])
+            v = self.const_int(n["inner"][0], it) % (1 << it.w)
+            if it.signed and v >= 1 << (it.w - 1):
+                v -= 1 << it.w
+            return v
+        if k in ("IntegerLiteral", "CharacterLiteral"):
+            return int(n["value"])
+        if k == "UnaryOperator" and n.get("opcode") in ("-", "~", "+"):
+            v = self.const_int(n["inner"][0], t)
+            return {"-": -v, "~": ~v, "+": v}[n["opcode"]]
+        if k == "DeclRefExpr" and n["referencedDecl"].get("kind") == "EnumConstantDecl":
+            return self.unit.consts[n["referencedDecl"]["name"]]
+        if k == "UnaryExprOrTypeTraitExpr" and n.get("name") == "sizeof":
+            return self.unit.consts[sizeof_key(n)]
+        if k == "BinaryOperator" and n.get("opcode") in ("*", "+", "-"):
+            x, y = self.const_int(n["inner"][0], t), self.const_int(n["inner"][1], t)
+            return {"*": x * y, "+": x + y, "-": x - y}[n["opcode"]]
+        raise Untranslatable(f"constant expression element of kind {k} is not a literal")
+
+    def const_size(self, n, env):
+        """a byte count that must be a compile-time constant (memcpy / memset)"""
+        e = self.expr(n, env)
+        if e.lit is not None:
+            return e.lit
+        try:
+            return self.const_int(n, e.t) % (1 << e.t.w)
+        except Untranslatable:
+            return None
+
+    def const_table(self, name, elem, dims):
+        """the content of a `static const` array, read from the initialiser in the AST of the current source"""
+        decl = self.unit.var_decl(name)
+        if "init" not in decl or not decl.get("inner"):
+            raise Untranslatable(f"constant table `{name}` has no initialiser")
+
+        def flat(n, dims):
+            if n.get("kind") != "InitListExpr":
+                raise Untranslatable(f"initialiser of `{name}` is not a brace list")
+            items = [x for x in n.get("inner", [])]
+            filler = n.get("array_filler")
+            if filler:
+                items = [x for x in filler if x.get("kind") != "ImplicitValueInitExpr"]
+            vals = []
+            for x in items:
+                if len(dims) > 1:
+                    vals += flat(x, dims[1:])
+                else:
+                    vals.append(self.const_int(x, elem) % (1 << elem.w))
+            per = 1
+            for d_ in dims[1:]:
+                per *= d_
+            if len(vals) > dims[0] * per:
+                raise Untranslatable(f"initialiser of `{name}` has too many elements")
+            return vals + [0] * (dims[0] * per - len(vals))
+        return flat(decl["inner"][-1] if decl["inner"][-1].get("kind") == "InitListExpr" else decl["inner"][0], dims)
+
+    def find_globals(self, body, local_ids):
+        """file-scope variables the body mentions: {name: referencedDecl}, and the names that are stored to"""
+        found, stored = {}, set()
+
+        def root_of(l):
+            while True:
+                k = l.get("kind")
+                if k == "ParenExpr" or (k == "ImplicitCastExpr" and l.get("castKind") == "ArrayToPointerDecay"):
+                    l = l["inner"][0]
+                elif k == "ArraySubscriptExpr":
+                    l = l["inner"][0]
+                else:
+                    return l
+
+        def walk(n):
+            k = n.get("kind")
+            if k == "DeclRefExpr" and n.get("referencedDecl", {}).get("kind") == "VarDecl" and \
+                    n["referencedDecl"].get("id") not in local_ids:
+                found[n["referencedDecl"]["name"]] = n["referencedDecl"]
+            if k == "CompoundAssignOperator" or (k == "BinaryOperator" and n.get("opcode") == "=") or \
+                    (k == "UnaryOperator" and n.get("opcode") in ("++", "--")):
+                r = root_of(n["inner"][0])
+                if r.get("kind") == "DeclRefExpr" and r["referencedDecl"].get("id") not in local_ids:
+                    stored.add(r["referencedDecl"].get("name"))
+            for c in n.get("inner", []):
+                if isinstance(c, dict):
+                    walk(c)
+        walk(body)
+        return found, stored
+
     def translate(self):
         a = self.ast
         self.cparams, env, self.ptr_params = [], {}, {}
         self.local_types = {}
+        self.ret_mode = "fn"
+        self.ro_arrays = []
         body = None
+        local_ids = set()
+
+        def ids(n):
+            if n.get("kind") in ("VarDecl", "ParmVarDecl") and "id" in n:
+                local_ids.add(n["id"])
+            for c in n.get("inner", []):
+                if isinstance(c, dict):
+                    ids(c)
+        ids(a)
+        for c in a.get("inner", []):
+            if c.get("kind") == "CompoundStmt":
+                body = c
+        self.loop_no = {}
+
+        def number(n):
+            if n.get("kind") in self.LOOPS:
+                self.loop_no[n["id"]] = len(self.loop_no) + 1
+            for c in n.get("inner", []):
+                if isinstance(c, dict):
+                    number(c)
+        number(body)
+        outs_params = []
         for c in a.get("inner", []):
             if c.get("kind") == "ParmVarDecl":
                 if "name" not in c:
                     raise Untranslatable("unnamed parameter")
-                st = self.struct_ptr(c["type"])
-                if st is not None:
+                pv = self.ptr_view(c["type"])
+                st = self.struct_ptr(c["type"]) if pv is None else None
+                if pv is not None and c["name"] in self.cfg.get("ends", {}):
+                    # the `end` of a `(p, end)` pair: a second pointer into the array of parameter `p`, an offset
+                    base = self.cfg["ends"][c["name"]]
+                    if base not in self.arrays:
+                        raise Untranslatable(f"`{c['name']}` is declared an end of `{base}`, which is not an earlier array parameter")
+                    pt_ = PTR(base, T(8, False) if pv == "void" else pv, 1)
+                    if pt_.elem.w != self.arrays[base].elem.w:
+                        raise Untranslatable(f"`{c['name']}` and `{base}` have different element types")
+                    env[c["name"]] = (ident(c["name"]), pt_)
+                    self.cparams.append(dict(name=c["name"], struct=None, t=pt_, ctype=c["type"]["qualType"], kind="end", base=base))
+                elif st is not None:
                     self.ptr_params[c["name"]] = st
-                    self.cparams.append(dict(name=c["name"], struct=st, t=None, ctype=c["type"]["qualType"]))
+                    self.cparams.append(dict(name=c["name"], struct=st, t=None, ctype=c["type"]["qualType"], kind="struct"))
+                elif pv is not None:
+                    nm = c["name"]
+                    const = re.search(r"\bconst\b[^*]*\*", c["type"].get("desugaredQualType", c["type"]["qualType"])) is not None
+                    elem = T(8, False) if pv == "void" else pv
+                    if pv != "void" and self.deref_only(body, nm) and nm not in self.cfg.get("arrays", ()):
+                        self.cells[nm] = elem
+                        env["*" + nm] = (ident(nm), elem)
+                        if not const:
+                            outs_params.append("*" + nm)
+                        self.cparams.append(dict(name=nm, struct=None, t=None, ctype=c["type"]["qualType"], kind="cell",
+                                                 elem=elem, writable=not const))
+                    else:
+                        A = ARR(elem, None, writable=not const, kind="param")
+                        self.arrays[nm] = A
+                        self.ptr_param_names.add(nm)
+                        env["@" + nm] = (ident(nm), A)
+                        env[nm] = ("0", PTR(nm, elem, 1))
+                        if const:
+                            self.ro_arrays.append(nm)
+                        else:
+                            outs_params.append("@" + nm)
+                        self.cparams.append(dict(name=nm, struct=None, t=None, ctype=c["type"]["qualType"], kind="array",
+                                                 elem=elem, writable=not const))
                 else:
                     t = self.ctype(c["type"])
-                    self.cparams.append(dict(name=c["name"], struct=None, t=t, ctype=c["type"]["qualType"]))
+                    self.cparams.append(dict(name=c["name"], struct=None, t=t, ctype=c["type"]["qualType"], kind="scalar"))
                     env[c["name"]] = (ident(c["name"]), t)
-            elif c.get("kind") == "CompoundStmt":
-                body = c
         if a.get("variadic"):
             raise Untranslatable("variadic function")
         rt = a["type"]["qualType"].split("(")[0].strip()
-        self.ret = self.ctype(dict(qualType=rt)) if strip_quals(rt) in BASE else self.unit.typedef_type(self, rt)
+        if rt == "void":
+            self.ret = None
+        else:
+            self.ret = self.ctype(dict(qualType=rt)) if strip_quals(rt) in BASE else self.unit.typedef_type(self, rt)
+        # ---- file-scope variables: constant tables become literals, the others are state (implicit parameters)
+        found, stored = self.find_globals(body, local_ids)
+        gparams, gouts = [], []
+        callee_globals = {}
+
+        def callees(n):
+            if n.get("kind") == "CallExpr":
+                try:
+                    c_ = self.callee_of(n)
+                except Untranslatable:
+                    c_ = None
+                if isinstance(c_, dict):
+                    for (pn, pt, origin) in c_["lean_params"]:
+                        if origin[0] in ("garray", "gcell"):
+                            callee_globals[origin[1]] = (origin[0], pt)
+                    for o in c_.get("outs", []):
+                        if o["origin"][0] in ("garray", "gcell"):
+                            stored.add(o["origin"][1])
+            for ch in n.get("inner", []):
+                if isinstance(ch, dict):
+                    callees(ch)
+        callees(body)
+        for gname in sorted(set(found) | set(callee_globals)):
+            if gname in found:
+                rd = found[gname]
+                tj = rd["type"]
+                q = tj.get("desugaredQualType", tj["qualType"])
+                is_const = re.search(r"\bconst\b", q) is not None
+                at = self.arr_type_of(tj)
+                if at is None:
+                    gt = self.ctype(tj)
+            else:
+                kind_, pt = callee_globals[gname]
+                is_const = False
+                at = (pt.elem, pt.dims) if kind_ == "garray" else None
+                gt = pt
+            if gname in env or "@" + gname in env or "*" + gname in env:
+                raise Untranslatable(f"global `{gname}` has the name of a parameter")
+            if at is not None:
+                elem, dims = at
+                if is_const:
+                    if gname in stored:
+                        raise Untranslatable(f"store into the constant table `{gname}`")
+                    vals = self.const_table(gname, elem, dims)
+                    lean = f"{self.unit.stem}_{gname}"
+                    A = ARR(elem, dims, writable=False, kind="const")
+                    self.arrays[gname] = A
+                    env["@" + gname] = (lean, A)
+                    self.unit.emit_table(lean, gname, A, vals)
+                else:
+                    A = ARR(elem, dims, writable=gname in stored, kind="global")
+                    self.arrays[gname] = A
+                    env["@" + gname] = (ident(gname), A)
+                    gparams.append((ident(gname), A, ("garray", gname)))
+                    if gname in stored:
+                        gouts.append("@" + gname)
+                    else:
+                        self.ro_arrays.append(gname)
+            else:
+                if is_const:
+                    decl = self.unit.var_decl(gname)
+                    if "init" not in decl:
+                        raise Untranslatable(f"constant `{gname}` has no initialiser")
+                    self.gconsts[gname] = (self.const_int(decl["inner"][0], gt), gt)
+                else:
+                    self.gcells[gname] = gt
+                    env["*" + gname] = (ident(gname), gt)
+                    gparams.append((ident(gname), gt, ("gcell", gname)))
+                    if gname in stored:
+                        gouts.append("*" + gname)
+        self.outs = outs_params + gouts
         self.collect_paths(body)
         self.all_paths = list(self.paths)
-        self.lean_params = []
+        self.lean_params = list(gparams)
         for i, p in enumerate(self.cparams):
-            if p["struct"] is None:
+            if p["kind"] == "scalar":
                 self.lean_params.append((ident(p["name"]), p["t"], ("scalar", i)))
+            elif p["kind"] == "array":
+                self.lean_params.append((ident(p["name"]), self.arrays[p["name"]], ("array", i)))
+            elif p["kind"] == "cell":
+                self.lean_params.append((ident(p["name"]), p["elem"], ("cell", i)))
+            elif p["kind"] == "end":
+                self.lean_params.append((ident(p["name"]), p["t"], ("end", i)))
             else:
                 # the access paths of one pointer parameter in alphabetical order: the Lean signature then does not
                 # depend on the order in which the C expression happens to mention the fields
@@ -933,18 +2435,34 @@ class Fn:
         if len(set(names)) != len(names):
             raise Untranslatable("parameter / access-path names collide: " + " ".join(names))
         self.scope = [(p, t) for p, t, _ in self.lean_params]
+        self.out_desc = []
+        for key in self.outs:
+            nm = key[1:]
+            idx = [i for i, p in enumerate(self.cparams) if p["name"] == nm and p["kind"] in ("array", "cell")]
+            if idx:
+                origin = ("array" if key[0] == "@" else "cell", idx[0])
+            else:
+                origin = ("garray" if key[0] == "@" else "gcell", nm)
+            self.out_desc.append(dict(name=nm, t=self.key_type(key), origin=origin))
 
         def fell_off(env2):
+            if self.ret is None:
+                return self.mkret(None, env2), "true"
             raise Untranslatable("control reaches the end of the function without a return")
         V, D = self.stmts([body], env, fell_off)
         if [p for p, _ in self.all_paths] != [p for p, _ in self.paths]:
             raise Untranslatable("internal: access paths found late")
+        shape = [f"({ident(g)}.length == {self.arrays[g].total()})" for g in sorted(self.arrays)
+                 if self.arrays[g].kind == "global"]
+        D = dand(shape + [D])
         ps = " ".join(f"({p} : {t.lean()})" for p, t, _ in self.lean_params)
-        text = "".join(self.defs)
+        ps = ps + " " if ps else ""
+        text = "\n".join(self.unit.pending_tables) + ("\n" if self.unit.pending_tables else "") + "".join(self.defs)
+        self.unit.pending_tables = []
         text += (f"/-- `{self.cfg['cname']}` — {self.cfg['file']}:{self.line}, sha256(source text)[:16] = {self.sha} -/\n"
-                 f"def {self.name} {ps} : {self.ret.lean()} :=\n  {V}\n\n"
+                 f"def {self.name} {ps}: {self.ret_lean()} :=\n  {V}\n\n"
                  f"/-- no undefined behaviour is reached by `{self.cfg['cname']}` on these arguments -/\n"
-                 f"def {self.name}_defined {ps} : Bool :=\n  {D}\n")
+                 f"def {self.name}_defined {ps}: Bool :=\n  {D}\n")
         return text
 
 
@@ -964,6 +2482,43 @@ class Unit:
         self.consts = {}
         self.enum_types = {}
         self.typedefs = {}
+        self.stem = re.sub(r"\W", "_", os.path.basename(file).rsplit(".", 1)[0])
+        self.var_decls = {}
+        self.tables = {}               # lean name -> text of an emitted constant table
+        self.pending_tables = []
+
+    def var_decl(self, name):
+        """the file-scope VarDecl `name` (the declaration that carries the initialiser, if there is one)"""
+        if name not in self.var_decls:
+            out = run_clang(["-fsyntax-only", "-Xclang", "-ast-dump=json", "-Xclang", "-ast-dump-filter=" + name, self.tu],
+                            "AST of variable " + name)
+            cands = [d for d in json_docs(out) if d.get("kind") == "VarDecl" and d.get("name") == name]
+            if not cands:
+                die(f"no declaration of variable `{name}` found in {self.tu}")
+            withinit = [d for d in cands if "init" in d]
+            self.var_decls[name] = (withinit or cands)[0]
+        return self.var_decls[name]
+
+    def emit_table(self, lean, cname, A, vals):
+        if lean in self.tables:
+            return
+        if A.elem.w == 8:
+            body = ", ".join(str(v) for v in vals)
+        else:
+            body = ", ".join(f"{v}#{A.elem.w}" for v in vals)
+        rows = []
+        line = ""
+        for tok in body.split(", "):
+            if len(line) + len(tok) > 104:
+                rows.append(line)
+                line = ""
+            line += tok + ", "
+        rows.append(line[:-2])
+        dims = "".join(f"[{d}]" for d in A.dims)
+        text = (f"/-- the constant table `{cname}{dims}` of {self.file}, content read from its initialiser in the AST of the current source -/\n"
+                f"def {lean} : {A.lean()} :=\n  [" + "\n   ".join(rows) + "]\n")
+        self.tables[lean] = text
+        self.pending_tables.append(text)
 
     def enum_type(self, key):
         if key not in self.enum_types:
@@ -973,8 +2528,16 @@ class Unit:
 
     def typedef_type(self, fn, spelled, soft=False):
         """type of a typedef name that appears only as text (a function's return type)"""
+        if self.typedefs.get(spelled) == "not an integer type":
+            raise Untranslatable(f"`{spelled}` is not an integer type")
         if spelled not in self.typedefs:
             q = strip_quals(spelled)
+            if soft:
+                try:
+                    const_query(self.tu_text, self.tmpdir, [f"sizeof({q})", f"(({q})1 / 2 == 0)"], True)
+                except Untranslatable:
+                    self.typedefs[spelled] = "not an integer type"
+                    raise
             r = const_query(self.tu_text, self.tmpdir,
                             [f"sizeof({q})", f"(({q})-1 < 0)", f"(({q})2 == 1)", f"(({q})1 / 2 == 0)"], soft)
             if r[f"(({q})1 / 2 == 0)"] != 1:
@@ -992,8 +2555,8 @@ class Unit:
         def walk(n):
             if n.get("kind") == "DeclRefExpr" and n.get("referencedDecl", {}).get("kind") == "EnumConstantDecl":
                 need.append(n["referencedDecl"]["name"])
-            if n.get("kind") == "UnaryExprOrTypeTraitExpr" and n.get("name") == "sizeof" and "argType" in n:
-                need.append("sizeof(" + n["argType"]["qualType"] + ")")
+            if n.get("kind") == "UnaryExprOrTypeTraitExpr" and n.get("name") == "sizeof":
+                need.append(sizeof_key(n))
             for c in n.get("inner", []):
                 if isinstance(c, dict):
                     walk(c)
@@ -1041,7 +2604,11 @@ def emit_shims(fns, externals):
             L.append(f"#define {sym} cfunshim_{stem}__{sym}")
         L += ["#include <stdint.h>", "#include <stddef.h>", "#include <stdbool.h>", "#include <string.h>",
               f'#include "{file[4:] if file.startswith("src/") else os.path.basename(file)}"', ""]
-        for fn in group:
+        L += ["#ifndef VERIF_CFUN_VAL", "#define VERIF_CFUN_VAL",
+              "typedef struct { uint64_t n; void* p; size_t len; } cfun_val;", "#endif", ""]
+        for fn in [g_ for g_ in group if g_.cfg["stage"] == 2]:
+            L += shim2(fn)
+        for fn in [g_ for g_ in group if g_.cfg["stage"] == 1]:
             L.append(f"uint64_t cfunx_{fn.name}(const uint64_t* a) {{")
             args, idx = [], 0
             slot = {}
@@ -1069,15 +2636,38 @@ def emit_shims(fns, externals):
                 L.append(f"    return (uint64_t)(uint{fn.ret.w}_t){call};")
             L.append("}")
         wanted[os.path.join(GENH, f"gen_cfun_shim_{stem}.c")] = "\n".join(L) + "\n"
+    fns1 = [fn for fn in fns if fn.cfg["stage"] == 1]
+    fns2 = [fn for fn in fns if fn.cfg["stage"] == 2]
     T_ = ["/* GENERATED by translate/gen_cfun.py on every check run. Do not edit. */",
-          "#ifndef VERIF_GEN_CFUN_TABLE_H", "#define VERIF_GEN_CFUN_TABLE_H", "#include <stdint.h>",
+          "#ifndef VERIF_GEN_CFUN_TABLE_H", "#define VERIF_GEN_CFUN_TABLE_H", "#include <stdint.h>", "#include <stddef.h>",
           "typedef struct { const char* name; int nargs; uint64_t (*call)(const uint64_t*); } cfun_entry;"]
-    for fn in fns:
+    for fn in fns1:
         T_.append(f"uint64_t cfunx_{fn.name}(const uint64_t* a);")
     T_.append("static const cfun_entry cfun_table[] = {")
-    for fn in fns:
+    for fn in fns1:
         T_.append(f'    {{"{fn.name}", {len(fn.lean_params)}, cfunx_{fn.name}}},')
-    T_ += ["};", f"#define CFUN_TABLE_N {len(fns)}", "#endif"]
+    T_ += ["};", f"#define CFUN_TABLE_N {len(fns1)}",
+           "/* stage 2: arguments / results are integers (kind 0) or arrays (kind = element size in bytes); `fixed` = required",
+           " * length of an array argument (0: any) */",
+           "#ifndef VERIF_CFUN_VAL", "#define VERIF_CFUN_VAL",
+           "typedef struct { uint64_t n; void* p; size_t len; } cfun_val;", "#endif",
+           "typedef struct { const char* name; int nargs; int nouts; int akind[24]; size_t fixed[24]; int okind[24];",
+           "                 void (*call)(cfun_val*, cfun_val*); } cfun2_entry;"]
+    for fn in fns2:
+        T_.append(f"void cfunx2_{fn.name}(cfun_val* a, cfun_val* o);")
+    T_.append("static const cfun2_entry cfun2_table[] = {")
+    for fn in fns2:
+        ak = [(t.elem.w // 8 if isinstance(t, ARR) else 0) for _, t, _ in fn.lean_params]
+        fx = [(t.total() if isinstance(t, ARR) and t.dims is not None else 0) for _, t, _ in fn.lean_params]
+        comps = ([fn.ret] if fn.ret is not None else []) + [o["t"] for o in fn.out_desc]
+        ok = [(t.elem.w // 8 if isinstance(t, ARR) else 0) for t in comps]
+        if len(ak) > 24 or len(ok) > 24:
+            die(f"{fn.name}: more than 24 arguments / results")
+        T_.append(f'    {{"{fn.name}", {len(ak)}, {len(ok)}, {{{", ".join(map(str, ak)) or "0"}}}, '
+                  f'{{{", ".join(map(str, fx)) or "0"}}}, {{{", ".join(map(str, ok)) or "0"}}}, cfunx2_{fn.name}}},')
+    if not fns2:
+        T_.append('    {"", 0, 0, {0}, {0}, {0}, 0},')
+    T_ += ["};", f"#define CFUN2_TABLE_N {len(fns2)}", "#endif"]
     wanted[os.path.join(GENH, "gen_cfun_table.h")] = "\n".join(T_) + "\n"
     os.makedirs(GENH, exist_ok=True)
     for old in os.listdir(GENH):
@@ -1088,6 +2678,59 @@ def emit_shims(fns, externals):
         if not os.path.exists(p) or open(p).read() != text:
             with open(p, "w") as f:
                 f.write(text)
+
+
+def shim2(fn):
+    """C wrapper of a stage-2 function: `void cfunx2_<name>(cfun_val* a, cfun_val* o)`; a[i] = the i-th Lean parameter"""
+    L = [f"void cfunx2_{fn.name}(cfun_val* a, cfun_val* o) {{"]
+    slot = {pn: i for i, (pn, _, _) in enumerate(fn.lean_params)}
+    args, post = [], {}
+    for (pn, pt, origin) in fn.lean_params:
+        if origin[0] == "gcell":
+            L.append(f"    {origin[1]} = ({c_int_type(pt)})a[{slot[pn]}].n;")
+        elif origin[0] == "garray":
+            L.append(f"    memcpy({origin[1]}, a[{slot[pn]}].p, sizeof {origin[1]});")
+    for i, p in enumerate(fn.cparams):
+        if p["kind"] == "scalar":
+            j = slot[ident(p["name"])]
+            args.append(f"(a[{j}].n != 0)" if p["t"].is_bool else f"({p['ctype']})({c_int_type(p['t'])})a[{j}].n")
+        elif p["kind"] == "array":
+            args.append(f"({p['ctype']})a[{slot[ident(p['name'])]}].p")
+        elif p["kind"] == "end":
+            args.append(f"({p['ctype']})(({c_int_type(p['t'].elem)}*)a[{slot[ident(p['base'])]}].p + a[{slot[ident(p['name'])]}].n)")
+        elif p["kind"] == "cell":
+            j = slot[ident(p["name"])]
+            L.append(f"    {c_int_type(p['elem'])} c{i} = ({c_int_type(p['elem'])})a[{j}].n;")
+            args.append(f"({p['ctype']})&c{i}")
+            post[("cell", i)] = f"c{i}"
+        else:
+            L.append(f"    static {p['struct']} s{i}; memset(&s{i}, 0, sizeof s{i});")
+            for (pname, pt, origin) in fn.lean_params:
+                if origin[0] == "path" and origin[1] == i:
+                    rhs = f"(a[{slot[pname]}].n != 0)" if pt.is_bool else f"({c_int_type(pt)})a[{slot[pname]}].n"
+                    L.append(f"    s{i}.{'.'.join(origin[2])} = {rhs};")
+            args.append(f"&s{i}")
+    call = f"{fn.cfg['cname']}({', '.join(args)})"
+    k = 0
+    if fn.ret is None:
+        L.append(f"    {call};")
+    else:
+        L.append(f"    o[0].n = " + (f"{call} ? 1u : 0u;" if fn.ret.is_bool else f"(uint64_t)(uint{fn.ret.w}_t){call};"))
+        k = 1
+    for o in fn.out_desc:
+        kind = o["origin"][0]
+        if kind == "cell":
+            L.append(f"    o[{k}].n = (uint64_t)(uint{o['t'].w}_t){post[o['origin']]};")
+        elif kind == "array":
+            j = slot[ident(fn.cparams[o['origin'][1]]['name'])]
+            L.append(f"    o[{k}].p = a[{j}].p; o[{k}].len = a[{j}].len;")
+        elif kind == "gcell":
+            L.append(f"    o[{k}].n = (uint64_t)(uint{o['t'].w}_t){o['origin'][1]};")
+        else:
+            L.append(f"    o[{k}].p = (void*){o['origin'][1]}; o[{k}].len = {o['t'].total()};")
+        k += 1
+    L.append("}")
+    return L
 
 
 def external_symbols(path, tmpdir):
@@ -1138,9 +2781,81 @@ def lean_table(fns):
     return "\n".join(L) + "\n"
 
 
+def kind_of(t):
+    if isinstance(t, ARR):
+        return f"(.arr {t.elem.w})"
+    if isinstance(t, PTR):
+        return f'(.off "{ident(t.base)}")'
+    return f"(.int {0 if t.is_bool else t.w} {'true' if t.signed else 'false'})"
+
+
+def lean_table2(fns):
+    """stage 2: arguments and results are `Val`s (integers or arrays)"""
+    L = ["", "/-! ### table of the stage-2 functions (arrays, out-parameters) for the driver -/", "",
+         "open Carquet.Impl.CSem (Val Kind) in",
+         "/-- a translated function whose arguments / results include arrays: Lean parameters in order, result components",
+         "in order (the returned value first, if any), arrays of a fixed length, and the evaluation on `Val`s -/",
+         "structure Entry2 where",
+         "  name : String",
+         "  cname : String",
+         "  file : String",
+         "  args : List (String × Kind)",
+         "  outs : List (String × Kind)",
+         "  fixed : List (String × Nat)",
+         "  eval : List Val → Option (List Val × Bool)",
+         "", "open Carquet.Impl.CSem (Val Kind) in", "def table2 : List Entry2 := ["]
+    rows = []
+    for fn in fns:
+        pats, conv = [], []
+        for i, (pn, pt, _) in enumerate(fn.lean_params):
+            if isinstance(pt, ARR):
+                pats.append(f".a a{i}")
+                conv.append(f"(a{i}.map UInt8.ofNat)" if pt.elem.w == 8 else f"(a{i}.map (BitVec.ofNat {pt.elem.w}))")
+            elif isinstance(pt, PTR):
+                pats.append(f".n a{i}")
+                conv.append(f"a{i}")
+            else:
+                pats.append(f".n a{i}")
+                conv.append(f"(decide (a{i} ≠ 0))" if pt.is_bool else f"(BitVec.ofNat {pt.w} a{i})")
+        app = " ".join(conv)
+        comps = ([("return", fn.ret)] if fn.ret is not None else []) + [(o["name"], o["t"]) for o in fn.out_desc]
+        outs = []
+        for i, (cn, ct) in enumerate(comps):
+            proj = "r" if len(comps) == 1 else "r" + ".2" * i + (".1" if i < len(comps) - 1 else "")
+            if isinstance(ct, ARR):
+                outs.append(f".a ({proj}.map (·.toNat))")
+            elif ct.is_bool:
+                outs.append(f".n (if {proj} then 1 else 0)")
+            else:
+                outs.append(f".n {proj}.toNat")
+        args = ", ".join(f'("{pn}", {kind_of(pt)})' for pn, pt, _ in fn.lean_params)
+        outk = ", ".join(f'("{cn}", {kind_of(ct)})' for cn, ct in comps)
+        fixed = ", ".join(f'("{ident(g)}", {fn.arrays[g].total()})' for g in sorted(fn.arrays) if fn.arrays[g].kind == "global")
+        call = f"{fn.name} {app}" if app else fn.name
+        calld = f"{fn.name}_defined {app}" if app else f"{fn.name}_defined"
+        rows.append(
+            f'  {{ name := "{fn.name}", cname := "{fn.cfg["cname"]}", file := "{fn.cfg["file"]}",\n'
+            f'    args := [{args}],\n'
+            f'    outs := [{outk}],\n'
+            f'    fixed := [{fixed}],\n'
+            f'    eval := fun a => match a with\n'
+            f'      | [{", ".join(pats)}] =>\n'
+            f'        if {calld} then\n'
+            f'          let r := {call}\n'
+            f'          some ([{", ".join(outs)}], true)\n'
+            f'        else some ([], false)\n'
+            f'      | _ => none }}')
+    L.append(",\n".join(rows) + " ]")
+    return "\n".join(L) + "\n"
+
+
 def main():
     fns = []
     externals = {}
+    dev = os.environ.get("CFUN_DEV")
+    if dev:
+        keep = set(dev.split(","))
+        FUNCS[:] = [c for c in FUNCS if c["lean"] in keep]
     with tempfile.TemporaryDirectory(prefix="cfun") as tmp:
         files = []
         for cfg in FUNCS:
@@ -1166,14 +2881,21 @@ def main():
             try:
                 fn.text = fn.translate()
             except Untranslatable as e:
+                if os.environ.get("CFUN_KEEP_GOING"):
+                    sys.stderr.write(f"cannot translate `{cfg['cname']}` ({cfg['file']}:{line}): {e}\n")
+                    continue
                 die(f"cannot translate `{cfg['cname']}` ({cfg['file']}:{line}): {e}")
             except (KeyError, IndexError, TypeError) as e:
                 die(f"cannot translate `{cfg['cname']}` ({cfg['file']}:{line}): unexpected AST shape ({e!r})")
             Unit.registry.append(dict(lean=fn.name, cname=cfg["cname"], file=cfg["file"], ret=fn.ret,
-                                      cparams=fn.cparams, lean_params=fn.lean_params,
+                                      cparams=fn.cparams, lean_params=fn.lean_params, outs=fn.out_desc,
                                       static=a.get("storageClass") == "static"))
             fn.static = a.get("storageClass") == "static"
             fns.append(fn)
+    if dev:
+        for fn in fns:
+            print(fn.text)
+        return
     L = ["import Carquet.Impl.CSem",
          "/-",
          "Lean definitions of pure scalar C functions of /repo, translated from clang-14's typed AST of the CURRENT source by",
@@ -1187,7 +2909,8 @@ def main():
          "namespace Carquet.Gen.CFun", ""]
     for fn in fns:
         L.append(fn.text)
-    L.append(lean_table(fns))
+    L.append(lean_table([fn for fn in fns if fn.cfg["stage"] == 1]))
+    L.append(lean_table2([fn for fn in fns if fn.cfg["stage"] == 2]))
     L += ["end Carquet.Gen.CFun", ""]
     gen.emit("CFun.lean", "\n".join(L))
     emit_shims(fns, externals)
